@@ -1,15 +1,13 @@
 import ThermoVerif.Lemmas.FlowViews
-import Mathlib.Tactic.Ring
-import Mathlib.Tactic.FieldSimp
-import Mathlib.Algebra.Field.Rat
 /-
 C11 — molar, mass and volumetric views and unit conversions of a stream always agree.
-Theorems over the model `ThermoVerif.FlowViews` (lean/ThermoVerif/Model/FlowViews.lean).
+The property-level theorems over the model `ThermoVerif.FlowViews` (lean/ThermoVerif/Model/FlowViews.lean).  Definitions
+(`VValid`, `VLine`, `RunOk`, `PutOk`, `Attached`, `conv`, …), helper lemmas and the proofs live in
+lean/ThermoVerif/Lemmas/FlowViews.lean; every theorem below restates one of them so that the audited obligations are
+exactly the property statements.
 -/
 namespace ThermoVerif.Props.C11
 open ThermoVerif.FlowViews
-
-/-! ## the history-dependent part: cached views track the stream -/
 
 /-- **view_tracks_rows.**  After *any* history of operations (reads and writes through the views, T / P / phase /
 phases changes, `link_with` in all flag combinations, `unlink`, `copy_like` incl. `_expand_phases`, property-package
@@ -26,90 +24,24 @@ theorem view_tracks_rows (w : World) (ops : List Op) (h : Inv w.s) (sid : Nat)
     v.th = ((w.run ops).stream sid).th ∧ v.pc = ((w.run ops).stream sid).viewPc ∧
     v.phases = ((w.run ops).stream sid).viewPhases ∧
     (key = .mass ∨ key = .vol v.tc) ∧
-    (key = .vol ((w.run ops).stream sid).tc → v.tc = ((w.run ops).stream sid).tc) := by
-  have hg := (run_inv ops h).tracks sid hs (key, v) hv
-  obtain ⟨g1, g2, g3, g4, g5⟩ := hg
-  refine ⟨g1, g2, g4, g3, g5, ?_⟩
-  intro hk
-  subst hk
-  exact (Good.tc_of_vol ⟨g1, g2, g3, g4, g5⟩)
+    (key = .vol ((w.run ops).stream sid).tc → v.tc = ((w.run ops).stream sid).tc) :=
+  ThermoVerif.FlowViews.view_tracks_rows (w := w) (ops := ops) (h := h) (sid := sid) (hs := hs) (key := key) (v := v) (hv := hv)
 
 /-- the invariant holds initially, whatever tables the adapter configured -/
 theorem inv_start (thermos : List (List Rat)) (units : List UnitDef) :
-    Inv ({ thermos := thermos, units := units } : World).s := inv_init
-
-/-! ## mass view -/
+    Inv ({ thermos := thermos, units := units } : World).s :=
+  ThermoVerif.FlowViews.inv_start (thermos := thermos) (units := units)
 
 /-- **mass_is_mol_MW.**  Reading `imass.data` gives, row by row and chemical by chemical, the molar flow the
 stream currently holds times the molecular weight of the stream's current chemicals. -/
 theorem mass_is_mol_MW {w : World} {sid : Nat} (h : Inv w.s) (hs : sid < w.s.nstreams) :
-    (w.readMass sid).2.2 = (w.readMol sid).map (fun r => mulVec r (w.MW (w.stream sid).th)) := by
-  have hg := (getView_good h hs (key := .mass) (Or.inl rfl)).1
-  have hc := getView_content w sid .mass
-  have hcfg := (getView_cfg w sid .mass).1
-  obtain ⟨g1, g2, -⟩ := hg
-  simp only [World.readMass, World.massView, World.readMol, World.rowsOf, World.MW, World.stream] at *
-  rw [g1, g2, hc, hcfg, List.map_map]
-  rfl
+    (w.readMass sid).2.2 = (w.readMol sid).map (fun r => mulVec r (w.MW (w.stream sid).th)) :=
+  ThermoVerif.FlowViews.mass_is_mol_MW (w := w) (sid := sid) (h := h) (hs := hs)
 
 /-- **F_mass is the sum of the mass view.** -/
 theorem Fmass_is_sum_of_mass_view {w : World} {sid : Nat} (h : Inv w.s) (hs : sid < w.s.nstreams) :
-    w.Fmass sid = sumLL (w.readMass sid).2.2 := by
-  rw [mass_is_mol_MW h hs]; rfl
-
-/-- **F_mol is the sum of the molar data** (by definition of the model, recorded for completeness). -/
-theorem Fmol_is_sum_of_mol (w : World) (sid : Nat) : w.Fmol sid = sumLL (w.readMol sid) := rfl
-
-/-! ## volumetric view -/
-
-/-- a molar-volume function of (chemicals, phase, T, P, chemical index): the parameter of the model -/
-abbrev VFun := Nat → Char → Rat → Rat → Nat → Rat
-
-/-- every molar volume held by the cache of some `VolumetricFlowDict` is the function's value at the key it is
-stored under -/
-def VValid (Vf : VFun) (c : Content) : Prop :=
-  ∀ vid, ∀ e ∈ c.vcs vid, e.V = Vf e.th e.ph e.T e.P e.idx
-
-/-- the phase of row position `k` of a stream -/
-def streamPhase (w : World) (sid k : Nat) : Char :=
-  if (w.stream sid).multi then (w.stream sid).phases.getD k 'l' else w.c.phs (w.stream sid).ph
-
-/-- the molar volumes on the protocol line are the function's values at the stream's *current* chemicals, phase(s),
-T and P (what the adapter evaluates freshly from the chemical objects) -/
-def VLine (Vf : VFun) (w : World) (sid : Nat) (V : Mat) : Prop :=
-  ∀ k r, (w.rowsOf sid)[k]? = some r → ∀ i,
-    vAt V k i = Vf (w.stream sid).th (streamPhase w sid k)
-      (w.c.tcs (w.stream sid).tc).1 (w.c.tcs (w.stream sid).tc).2 i
-
-theorem viewPhase_eq {w : World} {sid : Nat} {v : View} {key : Key} (hg : Good w.s (w.stream sid) (key, v))
-    (k : Nat) : w.viewPhase v k = streamPhase w sid k := by
-  obtain ⟨-, -, g3, g4, -⟩ := hg
-  simp only [World.viewPhase, streamPhase, Stream.viewPhases, Stream.viewPc] at *
-  cases hm : (w.stream sid).multi <;> simp_all
-
-/-- the molar volume a dictionary view uses — cached or fresh — is the function's value at the current key -/
-theorem usedV_eq {Vf : VFun} {w : World} {sid : Nat} {v : View} {key : Key} (hv : VValid Vf w.c)
-    (hg : Good w.s (w.stream sid) (key, v)) (htc : v.tc = (w.stream sid).tc) (k i : Nat) (vl : Rat)
-    (hl : vl = Vf (w.stream sid).th (streamPhase w sid k)
-            (w.c.tcs (w.stream sid).tc).1 (w.c.tcs (w.stream sid).tc).2 i) :
-    w.usedV v k i vl = Vf (w.stream sid).th (streamPhase w sid k)
-            (w.c.tcs (w.stream sid).tc).1 (w.c.tcs (w.stream sid).tc).2 i := by
-  have hph := viewPhase_eq hg k
-  obtain ⟨-, g2, -, -, -⟩ := hg
-  have g5 := htc
-  simp only at g2 g5
-  simp only [World.usedV, pickV]
-  split
-  · rename_i e he
-    split
-    · rename_i hhit
-      have hmem := List.mem_of_find?_eq_some he
-      have hp := List.find?_some he
-      simp only [VEntry.hit, Bool.and_eq_true, beq_iff_eq] at hhit hp
-      obtain ⟨⟨⟨h1, h2⟩, h3⟩, h4⟩ := hhit
-      rw [hv v.vid e hmem, h1, h2, h3, h4, hp.2, g2, g5, hph]
-    · exact hl
-  · exact hl
+    w.Fmass sid = sumLL (w.readMass sid).2.2 :=
+  ThermoVerif.FlowViews.Fmass_is_sum_of_mass_view (w := w) (sid := sid) (h := h) (hs := hs)
 
 /-- **vol_is_mol_V.**  Reading `ivol.data` gives, row by row and chemical by chemical, the molar flow the stream
 currently holds times the molar volume of that chemical at the stream's *current* phase (of that row), temperature and
@@ -117,686 +49,21 @@ pressure — whatever the history that led to the state. -/
 theorem vol_is_mol_V {Vf : VFun} {w : World} {sid : Nat} {V : Mat} (h : Inv w.s) (hs : sid < w.s.nstreams)
     (hv : VValid Vf w.c) (hl : VLine Vf w sid V) :
     (w.readVol sid V).2.2 = (w.readMol sid).zipIdx.map (fun (r, k) => r.zipIdx.map (fun (x, i) =>
-      x * Vf (w.stream sid).th (streamPhase w sid k) (w.c.tcs (w.stream sid).tc).1 (w.c.tcs (w.stream sid).tc).2 i)) := by
-  have hg0 := getView_good h hs (key := .vol (w.stream sid).tc) (Or.inr rfl)
-  have hc := getView_content w sid (.vol (w.stream sid).tc)
-  have hst := getView_streams w sid (.vol (w.stream sid).tc)
-  -- the same facts about the world after the view was fetched
-  generalize hw1 : w.getView sid (.vol (w.stream sid).tc) = p at *
-  obtain ⟨w1, v⟩ := p
-  simp only at hg0 hc hst
-  have hg : Good w.s (w.stream sid) (.vol (w.stream sid).tc, v) := hg0.1
-  have htc : v.tc = (w.stream sid).tc := hg0.2 trivial
-  have hstream : w1.stream sid = w.stream sid := by simp [World.stream, Struct.ixOf, hst.1, hst.2.2.2]
-  have hg1 : Good w1.s (w1.stream sid) (.vol (w.stream sid).tc, v) := by
-    rw [hstream]; obtain ⟨g1, g2⟩ := hg; exact ⟨by rw [g1, hst.2.2.1], g2⟩
-  have htc1 : v.tc = (w1.stream sid).tc := by rw [hstream]; exact htc
-  have hv1 : VValid Vf w1.c := by rw [hc]; exact hv
-  have hrows : v.rows = w.rowsOf sid := hg.1
-  simp only [World.readVol, World.volView, hw1, World.readMol]
-  rw [hrows, List.zipIdx_map, List.map_map]
-  apply List.map_congr_left
-  rintro ⟨r, k⟩ hrk
-  have hrk' := List.mem_zipIdx_iff_getElem?.mp hrk
-  simp only at hrk'
-  simp only [Function.comp, Prod.map, id]
-  rw [hc]
-  apply List.map_congr_left
-  rintro ⟨x, i⟩ hxi
-  have hxi' := List.mem_zipIdx_iff_getElem?.mp hxi
-  simp only at hxi'
-  have := usedV_eq hv1 hg1 htc1 k i (vAt V k i) (by
-    have := hl k r hrk' i
-    rw [hstream, hc]
-    simpa [streamPhase, hstream, hc] using this)
-  simp only
-  rw [this, hstream, hc]
-  simp [streamPhase, hstream, hc]
+      x * Vf (w.stream sid).th (streamPhase w sid k) (w.c.tcs (w.stream sid).tc).1 (w.c.tcs (w.stream sid).tc).2 i)) :=
+  ThermoVerif.FlowViews.vol_is_mol_V (Vf := Vf) (w := w) (sid := sid) (V := V) (h := h) (hs := hs) (hv := hv) (hl := hl)
 
 /-- **F_vol is the sum of the volumetric view** (F_vol is evaluated from the chemicals, the view through its cache). -/
 theorem Fvol_is_sum_of_vol_view {Vf : VFun} {w : World} {sid : Nat} {V : Mat} (h : Inv w.s)
     (hs : sid < w.s.nstreams) (hv : VValid Vf w.c) (hl : VLine Vf w sid V) :
-    w.Fvol sid V = sumLL (w.readVol sid V).2.2 := by
-  rw [vol_is_mol_V h hs hv hl]
-  simp only [World.Fvol]
-  congr 1
-  simp only [World.readMol]
-  rw [List.zipIdx_map, List.map_map, List.map_map]
-  apply List.map_congr_left
-  rintro ⟨r, k⟩ hrk
-  have hrk' := List.mem_zipIdx_iff_getElem?.mp hrk
-  simp only at hrk'
-  simp only [Function.comp, Prod.map, id]
-  apply List.map_congr_left
-  rintro ⟨x, i⟩ -
-  simp only
-  rw [hl k r hrk' i]
-
-/-! ### the molar-volume caches stay valid along every history -/
-
-theorem newEntry_valid {Vf : VFun} {w : World} {sid : Nat} {v : View} {key : Key}
-    (hg : Good w.s (w.stream sid) (key, v)) (htc : v.tc = (w.stream sid).tc) (k i : Nat) (vl : Rat)
-    (hl : vl = Vf (w.stream sid).th (streamPhase w sid k)
-            (w.c.tcs (w.stream sid).tc).1 (w.c.tcs (w.stream sid).tc).2 i) :
-    ∀ e ∈ w.newEntry v k i vl, e.V = Vf e.th e.ph e.T e.P e.idx := by
-  have hph := viewPhase_eq hg k
-  obtain ⟨-, g2, -, -, -⟩ := hg
-  have g5 := htc
-  simp only at g2 g5
-  intro e he
-  simp only [World.newEntry, pickNew] at he
-  have key : ∀ e', e' ∈ [({ k := k, idx := i, th := v.th, T := (w.c.tcs v.tc).1, P := (w.c.tcs v.tc).2,
-                            ph := w.viewPhase v k, V := vl } : VEntry)] →
-      e'.V = Vf e'.th e'.ph e'.T e'.P e'.idx := by
-    intro e' he'
-    simp only [List.mem_singleton] at he'
-    subst he'
-    simp only
-    rw [hl, g2, g5, hph]
-  split at he
-  · split at he
-    · cases he
-    · exact key e he
-  · exact key e he
-
-theorem addEntries_valid {Vf : VFun} {w : World} {v : View} {es : List VEntry} (hv : VValid Vf w.c)
-    (he : ∀ e ∈ es, e.V = Vf e.th e.ph e.T e.P e.idx) : VValid Vf (w.addEntries v es).c := by
-  intro vid e hmem
-  simp only [World.addEntries, upd] at hmem
-  split at hmem
-  · rcases List.mem_append.mp hmem with h | h
-    · exact he e h
-    · rename_i hvid; subst hvid; exact hv _ e h
-  · exact hv vid e hmem
-
-theorem vvalid_of_vcs {Vf : VFun} {c c' : Content} (hv : VValid Vf c) (h : c'.vcs = c.vcs) : VValid Vf c' := by
-  intro vid e he; rw [h] at he; exact hv vid e he
-
-/-- what is known about the world right after `imass` / `ivol` handed out its view -/
-theorem view_facts {Vf : VFun} {w : World} {sid : Nat} {key : Key} (h : Inv w.s) (hs : sid < w.s.nstreams)
-    (hk : key = .mass ∨ key = .vol (w.stream sid).tc) (hv : VValid Vf w.c) :
-    Good (w.getView sid key).1.s ((w.getView sid key).1.stream sid) (key, (w.getView sid key).2) ∧
-    VValid Vf (w.getView sid key).1.c ∧ (w.getView sid key).1.c = w.c ∧
-    (w.getView sid key).1.stream sid = w.stream sid ∧ (w.getView sid key).1.rowsOf sid = w.rowsOf sid ∧
-    (w.getView sid key).2.rows = w.rowsOf sid ∧
-    (key = .vol (w.stream sid).tc → (w.getView sid key).2.tc = ((w.getView sid key).1.stream sid).tc) := by
-  have hg0 := getView_good h hs hk
-  have hg : Good w.s (w.stream sid) (key, (w.getView sid key).2) := hg0.1
-  have hc := getView_content w sid key
-  have hst := getView_streams w sid key
-  have hstream : (w.getView sid key).1.stream sid = w.stream sid := by
-    simp [World.stream, Struct.ixOf, hst.1, hst.2.2.2]
-  refine ⟨?_, by rw [hc]; exact hv, hc, hstream, by simp [World.rowsOf, hstream, hst.2.2.1], hg.1, ?_⟩
-  · rw [hstream]; obtain ⟨g1, g2⟩ := hg; exact ⟨by rw [g1, hst.2.2.1], g2⟩
-  · intro e; rw [hstream]; exact hg0.2 e
-
-theorem volView_facts {Vf : VFun} {w : World} {sid : Nat} (h : Inv w.s) (hs : sid < w.s.nstreams)
-    (hv : VValid Vf w.c) :
-    Good (w.volView sid).1.s ((w.volView sid).1.stream sid) (.vol (w.stream sid).tc, (w.volView sid).2) ∧
-    VValid Vf (w.volView sid).1.c ∧ (w.volView sid).1.c = w.c ∧
-    (w.volView sid).1.stream sid = w.stream sid ∧ (w.volView sid).1.rowsOf sid = w.rowsOf sid ∧
-    (w.volView sid).2.rows = w.rowsOf sid ∧ (w.volView sid).2.tc = ((w.volView sid).1.stream sid).tc := by
-  have := view_facts h hs (key := .vol (w.stream sid).tc) (Or.inr rfl) hv
-  exact ⟨this.1, this.2.1, this.2.2.1, this.2.2.2.1, this.2.2.2.2.1, this.2.2.2.2.2.1, this.2.2.2.2.2.2 rfl⟩
-
-theorem massView_facts {Vf : VFun} {w : World} {sid : Nat} (h : Inv w.s) (hs : sid < w.s.nstreams)
-    (hv : VValid Vf w.c) :
-    Good (w.massView sid).1.s ((w.massView sid).1.stream sid) (.mass, (w.massView sid).2) ∧
-    VValid Vf (w.massView sid).1.c ∧ (w.massView sid).1.c = w.c ∧
-    (w.massView sid).1.stream sid = w.stream sid ∧ (w.massView sid).1.rowsOf sid = w.rowsOf sid ∧
-    (w.massView sid).2.rows = w.rowsOf sid := by
-  have := view_facts h hs (key := .mass) (Or.inl rfl) hv
-  exact ⟨this.1, this.2.1, this.2.2.1, this.2.2.2.1, this.2.2.2.2.1, this.2.2.2.2.2.1⟩
-
-theorem vline_transfer {Vf : VFun} {w w1 : World} {sid : Nat} {V : Mat} (hl : VLine Vf w sid V)
-    (hst : w1.stream sid = w.stream sid) (hr : w1.rowsOf sid = w.rowsOf sid)
-    (ht : w1.c.tcs = w.c.tcs) (hp : w1.c.phs = w.c.phs) : VLine Vf w1 sid V := by
-  intro k r hk i
-  rw [hr] at hk
-  have := hl k r hk i
-  simp only [streamPhase, hst, ht, hp] at this ⊢
-  exact this
-
-/-- the hypothesis on the parameters of one operation: whenever it touches the volumetric view, the molar volumes
-on its line are the function's values at the stream's current key -/
-def OpOk (Vf : VFun) (w : World) : Op → Prop
-  | .readVol s V => VLine Vf w s V
-  | .get s d _ _ V => d = .vol → VLine Vf w s V
-  | .put s d _ _ _ V => d = .vol → VLine Vf w s V
-  | .putRow s d _ _ V => d = .vol → VLine Vf w s V
-  | .getData s d _ _ _ V => d = .vol → VLine Vf w s V
-  | .setData s d _ _ _ _ V => d = .vol → VLine Vf w s V
-  | .getFlow s u _ _ V => ∀ f, w.flowUnit u = .ok (.vol, f) → VLine Vf w s V
-  | .setFlow s u _ _ _ V => ∀ f, w.flowUnit u = .ok (.vol, f) → VLine Vf w s V
-  | _ => True
-
-theorem getElem_vvalid {Vf : VFun} {w w' : World} {sid : Nat} {d : Dim} {ph : Option Char} {i : Nat} {V : Mat}
-    {vid : Option Nat} {x : Rat} (h : Inv w.s) (hs : sid < w.s.nstreams) (hv : VValid Vf w.c)
-    (hl : d = .vol → VLine Vf w sid V)
-    (he : w.getElem sid d ph i V = .ok (w', vid, x)) : VValid Vf w'.c := by
-  simp only [World.getElem] at he
-  split at he
-  · cases he
-  · rename_i k hk
-    split at he
-    · cases he
-    · split at he
-      · split at he
-        · cases he
-        · cases he; exact hv
-      · split at he
-        · cases he
-        · cases he
-          exact (massView_facts h hs hv).2.1
-      · have hf := volView_facts h hs hv
-        split at he
-        · cases he
-        · rename_i r hr
-          cases he
-          apply addEntries_valid hf.2.1
-          intro e he
-          split_ifs at he
-          · cases he
-          · have hl1 := vline_transfer (hl rfl) hf.2.2.2.1 hf.2.2.2.2.1 (by rw [hf.2.2.1]) (by rw [hf.2.2.1])
-            rw [hf.2.2.2.2.2.1] at hr
-            rw [← hf.2.2.2.2.1] at hr
-            exact newEntry_valid hf.1 hf.2.2.2.2.2.2 k i _ (hl1 k r hr i) e he
-      · cases he
-
-theorem putElem_vvalid {Vf : VFun} {w w' : World} {sid : Nat} {d : Dim} {ph : Option Char} {i : Nat} {x : Rat}
-    {V : Mat} {vid : Option Nat} (h : Inv w.s) (hs : sid < w.s.nstreams) (hv : VValid Vf w.c)
-    (hl : d = .vol → VLine Vf w sid V)
-    (he : w.putElem sid d ph i x V = .ok (w', vid)) : VValid Vf w'.c := by
-  simp only [World.putElem] at he
-  split at he
-  · cases he
-  · rename_i k hk
-    split at he
-    · cases he
-    · split at he
-      · split at he
-        · cases he
-        · cases he; exact hv
-      · split at he
-        · cases he
-        · cases he
-          exact (massView_facts h hs hv).2.1
-      · have hf := volView_facts h hs hv
-        split at he
-        · cases he
-        · rename_i r hr
-          cases he
-          have : VValid Vf ((w.volView sid).1.addEntries (w.volView sid).2
-              (if x = 0 then [] else (w.volView sid).1.newEntry (w.volView sid).2 k i (vAt V k i))).c := by
-            apply addEntries_valid hf.2.1
-            intro e he
-            split_ifs at he
-            · cases he
-            · have hl1 := vline_transfer (hl rfl) hf.2.2.2.1 hf.2.2.2.2.1 (by rw [hf.2.2.1]) (by rw [hf.2.2.1])
-              rw [hf.2.2.2.2.2.1] at hr
-              rw [← hf.2.2.2.2.1] at hr
-              exact newEntry_valid hf.1 hf.2.2.2.2.2.2 k i _ (hl1 k r hr i) e he
-          exact vvalid_of_vcs this rfl
-      · cases he
-
-theorem putRow_vvalid {Vf : VFun} {w w' : World} {sid : Nat} {d : Dim} {ph : Option Char} {xs : List Rat}
-    {V : Mat} {vid : Option Nat} (h : Inv w.s) (hs : sid < w.s.nstreams) (hv : VValid Vf w.c)
-    (hl : d = .vol → VLine Vf w sid V)
-    (he : w.putRow sid d ph xs V = .ok (w', vid)) : VValid Vf w'.c := by
-  simp only [World.putRow] at he
-  split at he
-  · cases he
-  · rename_i k hk
-    split at he
-    · cases he
-    · split at he
-      · split at he
-        · cases he
-        · cases he; exact vvalid_of_vcs hv rfl
-      · split at he
-        · cases he
-        · cases he
-          exact vvalid_of_vcs (massView_facts h hs hv).2.1 rfl
-      · have hf := volView_facts h hs hv
-        split at he
-        · cases he
-        · rename_i r hr
-          cases he
-          have : VValid Vf ((w.volView sid).1.addEntries (w.volView sid).2
-              (xs.zipIdx.flatMap (fun (x, i) => if x = 0 then []
-                else (w.volView sid).1.newEntry (w.volView sid).2 k i (vAt V k i)))).c := by
-            apply addEntries_valid hf.2.1
-            intro e he
-            simp only [List.mem_flatMap] at he
-            obtain ⟨⟨x, i⟩, -, he⟩ := he
-            simp only at he
-            split_ifs at he
-            · cases he
-            · have hl1 := vline_transfer (hl rfl) hf.2.2.2.1 hf.2.2.2.2.1 (by rw [hf.2.2.1]) (by rw [hf.2.2.1])
-              rw [hf.2.2.2.2.2.1] at hr
-              rw [← hf.2.2.2.2.1] at hr
-              exact newEntry_valid hf.1 hf.2.2.2.2.2.2 k i _ (hl1 k r hr i) e he
-          exact vvalid_of_vcs this rfl
-      · cases he
-
-theorem reattachStep_vcs (sid : Nat) (b1 b2 : Bool) (w : World) (cv : Char × Nat) :
-    (World.reattachStep sid b1 b2 w cv).c.vcs = w.c.vcs := by
-  simp only [World.reattachStep]
-  split <;> split <;> (try split) <;> rfl
-
-theorem foldReattach_vcs (sid : Nat) (b1 b2 : Bool) (l : List (Char × Nat)) (w : World) :
-    (l.foldl (World.reattachStep sid b1 b2) w).c.vcs = w.c.vcs := by
-  induction l generalizing w with
-  | nil => rfl
-  | cons a t ih => exact (ih _).trans (reattachStep_vcs sid b1 b2 w a)
-
-theorem reattach_vcs (w : World) (sid : Nat) (b1 b2 : Bool) : (w.reattach sid b1 b2).c.vcs = w.c.vcs :=
-  foldReattach_vcs sid b1 b2 _ w
-
-theorem unlink_vcs (w : World) (sid : Nat) : (w.unlink sid).c.vcs = w.c.vcs := by
-  simp only [World.unlink, World.unlinkWith, if_true]
-  rw [reattach_vcs]; rfl
-
-theorem phaseView_vcs {w w' : World} {sid v : Nat} {c : Char} (he : w.phaseView sid c = .ok (w', v)) :
-    w'.c.vcs = w.c.vcs := by
-  simp only [World.phaseView] at he
-  split at he
-  · cases he
-  · split at he
-    · cases he; rfl
-    · split at he
-      · cases he
-      · cases he; rfl
-
-theorem setPhase_vcs {w w' : World} {sid : Nat} {c : Char} {R : Mat} (he : w.setPhase sid c R = .ok w') :
-    w'.c.vcs = w.c.vcs := by
-  simp only [World.setPhase] at he
-  split at he
-  · split at he
-    · cases he
-    · cases he; rfl
-  · cases he; rfl
-
-theorem setPhases_vcs {w w' : World} {sid : Nat} {ps : List Char} {R : Mat} (he : w.setPhases sid ps R = .ok w') :
-    w'.c.vcs = w.c.vcs := by
-  simp only [World.setPhases] at he
-  split at he
-  · cases he
-  · exact setPhase_vcs he
-  · split at he
-    · split at he
-      · cases he; rfl
-      · split at he
-        · cases he
-        · split at he
-          · cases he
-          · cases he; rw [reattach_vcs]; rfl
-    · split at he
-      · cases he
-      · split at he
-        · cases he
-        · cases he; rfl
-
-theorem expandPhases_vcs {w w' : World} {sid : Nat} {others : List Char} {b : Bool}
-    (he : World.expandPhases b w sid others = .ok w') : w'.c.vcs = w.c.vcs := by
-  simp only [World.expandPhases] at he
-  split at he
-  · cases he; rfl
-  · split at he
-    · cases he
-    · cases he
-      cases b <;> rfl
-
-theorem copyLike_vcs {w w' : World} {sid oid : Nat} {R : Mat} (he : w.copyLike sid oid R = .ok w') :
-    w'.c.vcs = w.c.vcs := by
-  simp only [World.copyLike, World.copyLikeWith] at he
-  split at he
-  · cases he; rfl
-  · split at he
-    · split at he
-      · cases he
-      · cases he; rfl
-    · split at he
-      · cases he
-      · split at he
-        · cases he
-        · cases he; rfl
-      · split at he
-        · cases he
-        · cases he; rfl
-    · split at he
-      · cases he
-      · rename_i w1 hw1
-        have h1 : w1.c.vcs = w.c.vcs := by
-          split at hw1
-          · cases hw1; rfl
-          · exact expandPhases_vcs hw1
-        split at he
-        · cases he
-        · cases he; exact h1
-    · split at he
-      · cases he
-      · rename_i w1 hw1
-        have h1 : w1.c.vcs = w.c.vcs := by
-          split at hw1
-          · cases hw1; rfl
-          · exact expandPhases_vcs hw1
-        split at he
-        · cases he
-        · cases he; exact h1
-
-theorem resetThermo_vcs {w w' : World} {sid k : Nat} {R : Mat} (he : w.resetThermo sid k R = .ok w') :
-    w'.c.vcs = w.c.vcs := by
-  simp only [World.resetThermo] at he
-  split at he
-  · cases he; rfl
-  · split at he
-    · cases he
-    · split at he
-      · cases he
-      · cases he; rw [reattach_vcs]; rfl
-
-theorem sync_vcs {w w' : World} {sid : Nat} {T P : Rat} {ph : Option Char} {R : Mat}
-    (he : w.sync sid T P ph R = .ok w') : w'.c.vcs = w.c.vcs := by
-  simp only [World.sync] at he
-  split at he
-  · cases he
-  · cases he; rfl
-
-theorem mixInto_vcs {w w' : World} {sid : Nat} {others : List Char} {P : Rat} {R : Mat}
-    (he : w.mixInto sid others P R = .ok w') : w'.c.vcs = w.c.vcs := by
-  simp only [World.mixInto] at he
-  split at he
-  · cases he
-  · split at he
-    · cases he
-    · rename_i w1 hw1
-      have h1 : w1.c.vcs = w.c.vcs := by
-        split at hw1
-        · cases hw1; rfl
-        · exact expandPhases_vcs hw1
-      split at he
-      · cases he
-      · cases he; exact h1
-
-theorem link_vcs {w w' : World} {sid oid : Nat} {f p t : Bool} (he : w.link sid oid f p t = .ok w') :
-    w'.c.vcs = w.c.vcs := by
-  simp only [World.link, World.linkWith] at he
-  split at he
-  · cases he
-  · split at he
-    · cases he
-    · cases he
-      have h1 : (if (t && f && (p || (w.stream sid).multi)) = true then w.linkShare sid oid p
-          else World.linkPlain true w sid oid f p t).c.vcs = w.c.vcs := by
-        split
-        · rfl
-        · simp [World.linkPlain]
-      split
-      · rw [reattach_vcs]; exact h1
-      · exact h1
-
-theorem setF_vcs {w w' : World} {sid : Nat} {d : Dim} {x : Rat} {V : Mat} (he : w.setF sid d x V = .ok w') :
-    w'.c.vcs = w.c.vcs := by
-  simp only [World.setF] at he
-  split at he
-  · split at he
-    · cases he; rfl
-    · split at he
-      · cases he
-      · cases he; rfl
-  · cases he
-  · split at he
-    · cases he
-    · cases he; rfl
-
-theorem readVol_vvalid {Vf : VFun} {w : World} {sid : Nat} {V : Mat} (h : Inv w.s) (hs : sid < w.s.nstreams)
-    (hv : VValid Vf w.c) (hl : VLine Vf w sid V) : VValid Vf (w.readVol sid V).1.c := by
-  have hf := volView_facts h hs hv
-  simp only [World.readVol]
-  apply addEntries_valid hf.2.1
-  intro e he
-  simp only [List.mem_flatMap] at he
-  obtain ⟨⟨r, k⟩, hrk, x, hxi, he⟩ := he
-  obtain ⟨x, i⟩ := x
-  have hrk' := List.mem_zipIdx_iff_getElem?.mp hrk
-  simp only at hrk' he
-  split_ifs at he
-  · cases he
-  · have hl1 := vline_transfer hl hf.2.2.2.1 hf.2.2.2.2.1 (by rw [hf.2.2.1]) (by rw [hf.2.2.1])
-    rw [hf.2.2.2.2.2.1] at hrk'
-    rw [← hf.2.2.2.2.1] at hrk'
-    exact newEntry_valid hf.1 hf.2.2.2.2.2.2 k i _ (hl1 k r hrk' i) e he
-
-/-- one operation keeps every cached molar volume valid -/
-theorem exec_vvalid {Vf : VFun} {w w' : World} {op : Op} {out : Out} (h : Inv w.s) (hv : VValid Vf w.c)
-    (hok : OpOk Vf w op) (he : w.exec op = .ok (w', out)) : VValid Vf w'.c := by
-  unfold World.exec at he
-  split at he
-  · cases he
-  · rename_i hg
-    split at he
-    · cases he
-    have hsid : ∀ s ∈ op.sids, s < w.s.nstreams := by
-      intro s hs
-      simp only [List.any_eq_true, not_exists, not_and, decide_eq_true_eq, Nat.not_le] at hg
-      exact hg s hs
-    cases op with
-    | view s c =>
-      simp only [Except.map] at he
-      split at he
-      · cases he
-      · rename_i r hr
-        obtain ⟨w1, v⟩ := r
-        cases he
-        exact vvalid_of_vcs hv (phaseView_vcs hr)
-    | proxy s => cases he; exact vvalid_of_vcs hv rfl
-    | flowProxy s => cases he; exact vvalid_of_vcs hv rfl
-    | new1 th ph T P flows =>
-      simp only at he
-      split at he
-      · cases he
-      · cases he; exact vvalid_of_vcs hv rfl
-    | newm th phases T P rows =>
-      simp only at he
-      split at he
-      · cases he
-      · split at he
-        · cases he
-        · split at he
-          · cases he
-          · cases he; exact vvalid_of_vcs hv rfl
-    | setT s x => cases he; exact vvalid_of_vcs hv rfl
-    | setP s x => cases he; exact vvalid_of_vcs hv rfl
-    | setPhase s c R =>
-      simp only [Except.bind, okShape] at he
-      split at he
-      · cases he
-      · rename_i w1 hw1; cases he; exact vvalid_of_vcs hv (setPhase_vcs hw1)
-    | setPhases s ps R =>
-      simp only [Except.bind, okShape] at he
-      split at he
-      · cases he
-      · rename_i w1 hw1; cases he; exact vvalid_of_vcs hv (setPhases_vcs hw1)
-    | link s o f p t =>
-      simp only [Except.map] at he
-      split at he
-      · cases he
-      · rename_i w1 hw1; cases he; exact vvalid_of_vcs hv (link_vcs hw1)
-    | unlink s => cases he; exact vvalid_of_vcs hv (unlink_vcs _ _)
-    | copyLike s o R =>
-      simp only [Except.bind, okShape] at he
-      split at he
-      · cases he
-      · rename_i w1 hw1; cases he; exact vvalid_of_vcs hv (copyLike_vcs hw1)
-    | thermo s k R =>
-      simp only [Except.bind, okShape] at he
-      split at he
-      · cases he
-      · rename_i w1 hw1; cases he; exact vvalid_of_vcs hv (resetThermo_vcs hw1)
-    | sync s T P ph R =>
-      simp only [Except.bind, okShape] at he
-      split at he
-      · cases he
-      · rename_i w1 hw1; cases he; exact vvalid_of_vcs hv (sync_vcs hw1)
-    | mixInto s others P R =>
-      simp only [Except.bind, okShape] at he
-      split at he
-      · cases he
-      · rename_i w1 hw1; cases he; exact vvalid_of_vcs hv (mixInto_vcs hw1)
-    | readMol s => cases he; exact hv
-    | readMass s =>
-      cases he
-      exact (massView_facts h (hsid s (by simp [Op.sids])) hv).2.1
-    | readVol s V =>
-      cases he
-      exact readVol_vvalid h (hsid s (by simp [Op.sids])) hv hok
-    | readF s d V =>
-      simp only at he
-      split at he
-      · cases he
-      · cases he; exact hv
-    | writeF s d x V =>
-      simp only [Except.map] at he
-      split at he
-      · cases he
-      · rename_i w1 hw1; cases he; exact vvalid_of_vcs hv (setF_vcs hw1)
-    | get s d ph i V =>
-      simp only [Except.map] at he
-      split at he
-      · cases he
-      · rename_i r hr
-        obtain ⟨w1, vid, x⟩ := r
-        cases he
-        exact getElem_vvalid h (hsid s (by simp [Op.sids])) hv hok hr
-    | put s d ph i x V =>
-      simp only [Except.map] at he
-      split at he
-      · cases he
-      · rename_i r hr
-        obtain ⟨w1, vid⟩ := r
-        cases he
-        exact putElem_vvalid h (hsid s (by simp [Op.sids])) hv hok hr
-    | putRow s d ph xs V =>
-      simp only [Except.map] at he
-      split at he
-      · cases he
-      · rename_i r hr
-        obtain ⟨w1, vid⟩ := r
-        cases he
-        exact putRow_vvalid h (hsid s (by simp [Op.sids])) hv hok hr
-    | getFlow s u ph i V =>
-      simp only [Except.map, World.getFlow] at he
-      split at he
-      · cases he
-      · rename_i r hr
-        obtain ⟨w1, vid, x⟩ := r
-        cases he
-        split at hr
-        · cases hr
-        · rename_i d f hu
-          split at hr
-          · cases hr
-          · rename_i w2 vid2 x2 hg2
-            cases hr
-            refine getElem_vvalid h (hsid s (by simp [Op.sids])) hv ?_ hg2
-            intro hd
-            subst hd
-            exact hok f hu
-    | setFlow s u ph i x V =>
-      simp only [Except.map, World.setFlow] at he
-      split at he
-      · cases he
-      · rename_i r hr
-        obtain ⟨w1, vid⟩ := r
-        cases he
-        split at hr
-        · cases hr
-        · rename_i d f hu
-          refine putElem_vvalid h (hsid s (by simp [Op.sids])) hv ?_ hr
-          intro hd
-          subst hd
-          exact hok f hu
-    | getTotal s u V =>
-      simp only [Except.map] at he
-      split at he
-      · cases he
-      · cases he; exact hv
-    | setTotal s u x V =>
-      simp only [Except.map, World.setTotal] at he
-      split at he
-      · cases he
-      · rename_i w1 hw1
-        cases he
-        split at hw1
-        · cases hw1
-        · exact vvalid_of_vcs hv (setF_vcs hw1)
-    | getData s d u ph i V =>
-      simp only [Except.map, World.getData] at he
-      split at he
-      · cases he
-      · rename_i r hr
-        obtain ⟨w1, vid, x⟩ := r
-        cases he
-        split at hr
-        · cases hr
-        · split at hr
-          · cases hr
-          · rename_i w2 vid2 x2 hg2
-            cases hr
-            exact getElem_vvalid h (hsid s (by simp [Op.sids])) hv hok hg2
-    | setData s d u ph i x V =>
-      simp only [Except.map, World.setData] at he
-      split at he
-      · cases he
-      · rename_i r hr
-        obtain ⟨w1, vid⟩ := r
-        cases he
-        split at hr
-        · cases hr
-        · exact putElem_vvalid h (hsid s (by simp [Op.sids])) hv hok hr
-    | getProp s d u V =>
-      simp only [Except.map] at he
-      split at he
-      · cases he
-      · cases he; exact hv
-    | setProp s d u x V =>
-      simp only [Except.map, World.setProp] at he
-      split at he
-      · cases he
-      · rename_i w1 hw1
-        cases he
-        split at hw1
-        · cases hw1
-        · exact vvalid_of_vcs hv (setF_vcs hw1)
-    | unitFor d u =>
-      simp only [Except.map] at he
-      split at he
-      · cases he
-      · cases he; exact hv
-
-/-- the hypothesis on the parameters of a whole history -/
-def RunOk (Vf : VFun) : World → List Op → Prop
-  | _, [] => True
-  | w, op :: t => OpOk Vf w op ∧ RunOk Vf (w.step op) t
+    w.Fvol sid V = sumLL (w.readVol sid V).2.2 :=
+  ThermoVerif.FlowViews.Fvol_is_sum_of_vol_view (Vf := Vf) (w := w) (sid := sid) (V := V) (h := h) (hs := hs) (hv := hv) (hl := hl)
 
 /-- **vcache_valid_along_histories.**  Along every history whose molar-volume parameters come from one function of
 (chemicals, phase, T, P), every molar volume held in any view's cache is that function's value at the key it is stored
 under; together with `view_tracks_rows` this is what makes `vol_is_mol_V` hold in every reachable state. -/
 theorem vcache_valid_along_histories {Vf : VFun} (ops : List Op) {w : World} (h : Inv w.s) (hv : VValid Vf w.c)
-    (hok : RunOk Vf w ops) : VValid Vf (w.run ops).c ∧ Inv (w.run ops).s := by
-  induction ops generalizing w with
-  | nil => exact ⟨hv, h⟩
-  | cons op t ih =>
-    obtain ⟨h1, h2⟩ := hok
-    have hs := step_inv op h
-    refine ih hs ?_ h2
-    unfold World.step
-    split
-    · rename_i w1 out he; exact exec_vvalid h hv h1 he
-    · exact hv
-
-/-! ### the two view laws in every reachable state -/
+    (hok : RunOk Vf w ops) : VValid Vf (w.run ops).c ∧ Inv (w.run ops).s :=
+  ThermoVerif.FlowViews.vcache_valid_along_histories (Vf := Vf) (ops := ops) (w := w) (h := h) (hv := hv) (hok := hok)
 
 /-- **mass_is_mol_MW_after_any_history.**  From the configured start, after any history whatsoever, the mass view of
 any stream reads molar flow × molecular weight. -/
@@ -804,7 +71,7 @@ theorem mass_is_mol_MW_after_any_history (thermos : List (List Rat)) (units : Li
     (sid : Nat) (hs : sid < (({ thermos := thermos, units := units } : World).run ops).s.nstreams) :
     let w := ({ thermos := thermos, units := units } : World).run ops
     (w.readMass sid).2.2 = (w.readMol sid).map (fun r => mulVec r (w.MW (w.stream sid).th)) :=
-  mass_is_mol_MW (run_inv ops inv_init) hs
+  ThermoVerif.FlowViews.mass_is_mol_MW_after_any_history (thermos := thermos) (units := units) (ops := ops) (sid := sid) (hs := hs)
 
 /-- **vol_is_mol_V_after_any_history.**  From the configured start, after any history whose molar-volume parameters
 come from one function `Vf`, the volumetric view of any stream reads molar flow × `Vf` at the stream's current
@@ -815,79 +82,8 @@ theorem vol_is_mol_V_after_any_history {Vf : VFun} (thermos : List (List Rat)) (
     (hl : VLine Vf (({ thermos := thermos, units := units } : World).run ops) sid V) :
     let w := ({ thermos := thermos, units := units } : World).run ops
     (w.readVol sid V).2.2 = (w.readMol sid).zipIdx.map (fun (r, k) => r.zipIdx.map (fun (x, i) =>
-      x * Vf (w.stream sid).th (streamPhase w sid k) (w.c.tcs (w.stream sid).tc).1 (w.c.tcs (w.stream sid).tc).2 i)) := by
-  have h := vcache_valid_along_histories (Vf := Vf) ops (w := { thermos := thermos, units := units }) inv_init
-    (fun _ e he => by cases he) hok
-  exact vol_is_mol_V h.2 hs h.1 hl
-
-/-! ## totals: setting a total scales every row by one factor -/
-
-theorem sumL_map_mul (l : List Rat) (q : Rat) : sumL (l.map (· * q)) = sumL l * q := by
-  induction l with
-  | nil => simp [sumL]
-  | cons a t ih =>
-    simp only [sumL, List.map_cons, List.foldr_cons] at ih ⊢
-    rw [ih]; ring
-
-theorem sumLL_map_map_mul (m : Mat) (q : Rat) : sumLL (m.map (fun r => r.map (· * q))) = sumLL m * q := by
-  induction m with
-  | nil => simp [sumLL, sumL]
-  | cons a t ih =>
-    simp only [sumLL, sumL, List.map_cons, List.foldr_cons] at ih ⊢
-    have := sumL_map_mul a q
-    simp only [sumL] at this
-    rw [this, ih]; ring
-
-theorem mulVec_map_mul (r mw : List Rat) (q : Rat) : mulVec (r.map (· * q)) mw = (mulVec r mw).map (· * q) := by
-  induction r generalizing mw with
-  | nil => simp [mulVec]
-  | cons a t ih =>
-    cases mw with
-    | nil => simp [mulVec]
-    | cons b u =>
-      simp only [mulVec, List.map_cons, List.zipWith_cons_cons, List.cons.injEq] at ih ⊢
-      exact ⟨by ring, ih u⟩
-
-theorem zipIdx_map_mul (r : List Rat) (q : Rat) (n : Nat) (g : Nat → Rat) :
-    ((r.map (· * q)).zipIdx n).map (fun (x, i) => x * g i) = ((r.zipIdx n).map (fun (x, i) => x * g i)).map (· * q) := by
-  induction r generalizing n with
-  | nil => simp
-  | cons a t ih =>
-    simp only [List.map_cons, List.zipIdx_cons, List.cons.injEq]
-    exact ⟨by ring, ih (n + 1)⟩
-
-/-- `imol.data *= q` multiplies the dense image row by row -/
-theorem readMol_scale (w : World) (sid : Nat) (q : Rat) :
-    (w.scale sid q).readMol sid = (w.readMol sid).map (fun r => r.map (· * q)) := by
-  simp only [World.readMol, World.scale, World.rowsOf, World.stream, List.map_map]
-  apply List.map_congr_left
-  intro r hr
-  simp [Function.comp, hr]
-
-theorem F_scale (w : World) (sid : Nat) (d : Dim) (V : Mat) (q : Rat) :
-    (w.scale sid q).F sid d V = w.F sid d V * q := by
-  cases d with
-  | mol => simp only [World.F, World.Fmol, readMol_scale, sumLL_map_map_mul]
-  | mass =>
-    simp only [World.F, World.Fmass, readMol_scale]
-    have hst : (w.scale sid q).stream sid = w.stream sid := rfl
-    have hmw : ∀ th, (w.scale sid q).MW th = w.MW th := fun _ => rfl
-    rw [hst, hmw, List.map_map]
-    rw [← sumLL_map_map_mul, List.map_map]
-    congr 1
-    apply List.map_congr_left
-    intro r _
-    simp [Function.comp, mulVec_map_mul]
-  | vol =>
-    simp only [World.F, World.Fvol, readMol_scale]
-    rw [← sumLL_map_map_mul, List.map_map]
-    congr 1
-    rw [List.zipIdx_map, List.map_map]
-    apply List.map_congr_left
-    rintro ⟨r, k⟩ _
-    simp only [Function.comp, Prod.map, id]
-    exact zipIdx_map_mul r q 0 (fun i => vAt V k i)
-  | other => simp [World.F]
+      x * Vf (w.stream sid).th (streamPhase w sid k) (w.c.tcs (w.stream sid).tc).1 (w.c.tcs (w.stream sid).tc).2 i)) :=
+  ThermoVerif.FlowViews.vol_is_mol_V_after_any_history (Vf := Vf) (thermos := thermos) (units := units) (ops := ops) (hok := hok) (sid := sid) (V := V) (hs := hs) (hl := hl)
 
 /-- **set_total_keeps_composition.**  The setters of `F_mol`, `F_mass`, `F_vol` (and `set_total_flow` in any unit, which
 goes through them) multiply every molar flow of every phase by one and the same factor, and afterwards the total reads
@@ -895,64 +91,26 @@ back as the value that was set. -/
 theorem set_total_keeps_composition {w w' : World} {sid : Nat} {d : Dim} {x : Rat} {V : Mat}
     (hF : w.F sid d V ≠ 0) (he : w.setF sid d x V = .ok w') :
     w'.readMol sid = (w.readMol sid).map (fun r => r.map (· * (x / w.F sid d V))) ∧
-    w'.F sid d V = x ∧ w'.s = w.s := by
-  have hs : w' = w.scale sid (x / w.F sid d V) := by
-    simp only [World.setF] at he
-    split at he
-    · rw [if_pos hF] at he; cases he; rfl
-    · cases he
-    · rw [if_neg hF] at he; cases he; rfl
-  subst hs
-  refine ⟨readMol_scale w sid _, ?_, rfl⟩
-  rw [F_scale]
-  field_simp
+    w'.F sid d V = x ∧ w'.s = w.s :=
+  ThermoVerif.FlowViews.set_total_keeps_composition (w := w) (w' := w') (sid := sid) (d := d) (x := x) (V := V) (hF := hF) (he := he)
 
 /-- the same in terms of fractions: every molar fraction `mol_ki / F_mol` is unchanged (for a non-zero new total) -/
 theorem set_total_keeps_fractions {w w' : World} {sid : Nat} {d : Dim} {x : Rat} {V : Mat}
     (hF : w.F sid d V ≠ 0) (hx : x ≠ 0) (he : w.setF sid d x V = .ok w') (k i : Nat) :
-    ((w'.readMol sid).getD k []).getD i 0 / w'.Fmol sid = ((w.readMol sid).getD k []).getD i 0 / w.Fmol sid := by
-  obtain ⟨h1, -, -⟩ := set_total_keeps_composition hF he
-  have hq : x / w.F sid d V ≠ 0 := div_ne_zero hx hF
-  have hFm : w'.Fmol sid = w.Fmol sid * (x / w.F sid d V) := by
-    simp only [World.Fmol, h1, sumLL_map_map_mul]
-  rw [hFm, h1]
-  have : ((List.map (fun r => List.map (· * (x / w.F sid d V)) r) (w.readMol sid)).getD k []).getD i 0
-       = ((w.readMol sid).getD k []).getD i 0 * (x / w.F sid d V) := by
-    simp only [List.getD_eq_getElem?_getD, List.getElem?_map]
-    cases (w.readMol sid)[k]? with
-    | none => simp
-    | some r =>
-      simp only [Option.map_some, Option.getD_some, List.getElem?_map]
-      cases r[i]? <;> simp
-  rw [this]
-  by_cases hz : w.Fmol sid = 0
-  · simp [hz]
-  · field_simp
-
-/-! ## units of measure -/
-
-/-- the factor that converts a value in unit `a` to unit `b` (same dimension) -/
-def conv (a b : UnitDef) : Rat := b.factor / a.factor
+    ((w'.readMol sid).getD k []).getD i 0 / w'.Fmol sid = ((w.readMol sid).getD k []).getD i 0 / w.Fmol sid :=
+  ThermoVerif.FlowViews.set_total_keeps_fractions (w := w) (w' := w') (sid := sid) (d := d) (x := x) (V := V) (hF := hF) (hx := hx) (he := he) (k := k) (i := i)
 
 /-- **factor_consistent.**  With non-zero table factors, the conversion `u → u'` that the model performs
 (`f(u')/f(u)`, see `set_get_other_unit`) is reflexive, transitive and invertible; the driver checks on the dumped table
 that pint's direct factor `u → u'` is this quotient (`cfg-conv`). -/
 theorem factor_consistent (a b c : UnitDef) (ha : a.factor ≠ 0) (hb : b.factor ≠ 0) :
-    conv a a = 1 ∧ conv a b * conv b c = conv a c ∧ conv a b * conv b a = 1 := by
-  refine ⟨?_, ?_, ?_⟩ <;> simp only [conv] <;> field_simp
+    conv a a = 1 ∧ conv a b * conv b c = conv a c ∧ conv a b * conv b a = 1 :=
+  ThermoVerif.FlowViews.factor_consistent (a := a) (b := b) (c := c) (ha := ha) (hb := hb)
 
 /-- what the driver's `cfg-units` monitor establishes -/
 theorem unitsNonzero_spec {l : List UnitDef} (h : unitsNonzero l = true) {u : String} {d : UnitDef}
-    (hf : findUnit l u = some d) (hd : d.dim ≠ .other) : d.factor ≠ 0 := by
-  have hmem := List.mem_of_find?_eq_some hf
-  simp only [unitsNonzero, List.all_eq_true, Bool.or_eq_true, beq_iff_eq, bne_iff_ne, ne_eq] at h
-  rcases h d hmem with h1 | h1
-  · exact absurd h1 hd
-  · exact h1
-
-theorem flowUnit_ok {w : World} {u : String} {d : UnitDef} (hf : findUnit w.units u = some d)
-    (hd : d.dim ≠ .other) : w.flowUnit u = .ok (d.dim, d.factor) := by
-  simp [World.flowUnit, hf, hd]
+    (hf : findUnit l u = some d) (hd : d.dim ≠ .other) : d.factor ≠ 0 :=
+  ThermoVerif.FlowViews.unitsNonzero_spec (l := l) (h := h) (u := u) (d := d) (hf := hf) (hd := hd)
 
 /-- **dimension_guard.**  A unit whose dimension is none of molar, mass or volumetric flow is rejected by all four
 entry points, and the state is left as it was. -/
@@ -961,29 +119,17 @@ theorem dimension_guard {w : World} {u : String} {d : UnitDef} (hf : findUnit w.
     w.getFlow sid u ph i V = .error .dimension ∧ w.setFlow sid u ph i x V = .error .dimension ∧
     w.getTotal sid u V = .error .dimension ∧ w.setTotal sid u x V = .error .dimension ∧
     w.step (.getFlow sid u ph i V) = w ∧ w.step (.setFlow sid u ph i x V) = w ∧
-    w.step (.getTotal sid u V) = w ∧ w.step (.setTotal sid u x V) = w := by
-  have hu : w.flowUnit u = .error .dimension := by simp [World.flowUnit, hf, hd]
-  have h1 : w.getFlow sid u ph i V = .error .dimension := by simp [World.getFlow, hu]
-  have h2 : w.setFlow sid u ph i x V = .error .dimension := by simp [World.setFlow, hu]
-  have h3 : w.getTotal sid u V = .error .dimension := by simp [World.getTotal, hu]
-  have h4 : w.setTotal sid u x V = .error .dimension := by simp [World.setTotal, hu]
-  refine ⟨h1, h2, h3, h4, ?_, ?_, ?_, ?_⟩ <;>
-  · simp only [World.step, World.exec]
-    split_ifs <;> simp [h1, h2, h3, h4, Except.map]
+    w.step (.getTotal sid u V) = w ∧ w.step (.setTotal sid u x V) = w :=
+  ThermoVerif.FlowViews.dimension_guard (w := w) (u := u) (d := d) (hf := hf) (hd := hd) (sid := sid) (ph := ph) (i := i) (x := x) (V := V)
 
-theorem setF_cfg {w w' : World} {sid : Nat} {d : Dim} {x : Rat} {V : Mat} (he : w.setF sid d x V = .ok w') :
-    w'.units = w.units ∧ w'.thermos = w.thermos := by
-  simp only [World.setF] at he
-  split at he
-  · split at he
-    · cases he; exact ⟨rfl, rfl⟩
-    · split at he
-      · cases he
-      · cases he; exact ⟨rfl, rfl⟩
-  · cases he
-  · split at he
-    · cases he
-    · cases he; exact ⟨rfl, rfl⟩
+/-- **dimension_guard_dimensionality.**  The same guard stated on what the code compares: a unit whose pint
+dimensionality is none of those of kmol/hr, kg/hr and m^3/hr is rejected. -/
+theorem dimension_guard_dimensionality {w : World} {u : String} {d : UnitDef} (hf : findUnit w.units u = some d)
+    (h1 : d.dimv ≠ molDim) (h2 : d.dimv ≠ massDim) (h3 : d.dimv ≠ volDim)
+    (sid : Nat) (ph : Option Char) (i : Nat) (x : Rat) (V : Mat) :
+    w.getFlow sid u ph i V = .error .dimension ∧ w.setFlow sid u ph i x V = .error .dimension ∧
+    w.getTotal sid u V = .error .dimension ∧ w.setTotal sid u x V = .error .dimension :=
+  ThermoVerif.FlowViews.dimension_guard_dimensionality (w := w) (u := u) (d := d) (hf := hf) (h1 := h1) (h2 := h2) (h3 := h3) (sid := sid) (ph := ph) (i := i) (x := x) (V := V)
 
 /-- **set_get_total.**  `set_total_flow(x, u)` followed by `get_total_flow(u')` in a unit of the same dimension returns
 `x · f(u')/f(u)`; in particular `x` itself for `u' = u`. -/
@@ -991,23 +137,8 @@ theorem set_get_total {w w' : World} {sid : Nat} {u u' : String} {x : Rat} {V : 
     (ha : findUnit w.units u = some a) (hb : findUnit w.units u' = some b) (hdim : a.dim = b.dim)
     (hao : a.dim ≠ .other) (hfa : a.factor ≠ 0) (hF : w.F sid a.dim V ≠ 0)
     (he : w.setTotal sid u x V = .ok w') :
-    w'.getTotal sid u' V = .ok (x * conv a b) ∧ (u' = u → w'.getTotal sid u' V = .ok x) := by
-  simp only [World.setTotal, flowUnit_ok ha hao] at he
-  obtain ⟨-, hF', -⟩ := set_total_keeps_composition hF he
-  have hcfg := setF_cfg he
-  have hb' : findUnit w'.units u' = some b := by rw [hcfg.1]; exact hb
-  have hbo : b.dim ≠ .other := hdim ▸ hao
-  have h1 : w'.getTotal sid u' V = .ok (x * conv a b) := by
-    simp only [World.getTotal, flowUnit_ok hb' hbo, ← hdim, hF', conv]
-    congr 1; field_simp
-  refine ⟨h1, ?_⟩
-  intro huu
-  subst huu
-  have : a = b := by rw [ha] at hb; exact Option.some.inj hb
-  subst this
-  rw [h1, (factor_consistent a a a hfa hfa).1, mul_one]
-
-/-! ## units on one view: `get_data / set_data`, `get_property / set_property`, `units=` -/
+    w'.getTotal sid u' V = .ok (x * conv a b) ∧ (u' = u → w'.getTotal sid u' V = .ok x) :=
+  ThermoVerif.FlowViews.set_get_total (w := w) (w' := w') (sid := sid) (u := u) (u' := u') (x := x) (V := V) (a := a) (b := b) (ha := ha) (hb := hb) (hdim := hdim) (hao := hao) (hfa := hfa) (hF := hF) (he := he)
 
 /-- **view_dimension_guard.**  A unit whose dimension is not the dimension of the view / property it is applied to — a
 mass unit on `imol`, a molar unit on `F_vol`, … or a non-flow unit — is rejected by `get_data`, `set_data`,
@@ -1020,23 +151,8 @@ theorem view_dimension_guard {w : World} {u : String} {e : UnitDef} {d : Dim}
     w.getData sid d u ph i V = .error .dimension ∧ w.setData sid d u ph i x V = .error .dimension ∧
     w.getProp sid d u V = .error .dimension ∧ w.setProp sid d u x V = .error .dimension ∧
     w.step (.getData sid d u ph i V) = w ∧ w.step (.setData sid d u ph i x V) = w ∧
-    w.step (.getProp sid d u V) = w ∧ w.step (.setProp sid d u x V) = w := by
-  have hu : w.viewUnit d u = .error .dimension := by
-    simp only [World.viewUnit, hf]
-    rcases hd with hd | hd
-    · simp [hd]
-    · simp [hd]
-  have h1 : w.getData sid d u ph i V = .error .dimension := by simp [World.getData, hu]
-  have h2 : w.setData sid d u ph i x V = .error .dimension := by simp [World.setData, hu]
-  have h3 : w.getProp sid d u V = .error .dimension := by simp [World.getProp, hu]
-  have h4 : w.setProp sid d u x V = .error .dimension := by simp [World.setProp, hu]
-  refine ⟨hu, h1, h2, h3, h4, ?_, ?_, ?_, ?_⟩ <;>
-  · simp only [World.step, World.exec]
-    split_ifs <;> simp [h1, h2, h3, h4, Except.map]
-
-theorem viewUnit_ok {w : World} {u : String} {e : UnitDef} (hf : findUnit w.units u = some e)
-    (ho : e.dim ≠ .other) : w.viewUnit e.dim u = .ok e.factor := by
-  simp [World.viewUnit, hf, ho]
+    w.step (.getProp sid d u V) = w ∧ w.step (.setProp sid d u x V) = w :=
+  ThermoVerif.FlowViews.view_dimension_guard (w := w) (u := u) (e := e) (d := d) (hf := hf) (hd := hd) (sid := sid) (ph := ph) (i := i) (x := x) (V := V)
 
 /-- **view_unit_agrees_with_flow_unit.**  For a unit of the view's own dimension the factor `get_data` / `get_property` use
 is the one `get_flow` / `get_total_flow` use: the two families of entry points convert identically. -/
@@ -1044,204 +160,16 @@ theorem view_unit_agrees_with_flow_unit {w : World} {u : String} {e : UnitDef} (
     (ho : e.dim ≠ .other) (sid : Nat) (ph : Option Char) (i : Nat) (x : Rat) (V : Mat) :
     w.getData sid e.dim u ph i V = w.getFlow sid u ph i V ∧
     w.setData sid e.dim u ph i x V = w.setFlow sid u ph i x V ∧
-    w.getProp sid e.dim u V = w.getTotal sid u V ∧ w.setProp sid e.dim u x V = w.setTotal sid u x V := by
-  have h1 := viewUnit_ok hf ho
-  have h2 := flowUnit_ok hf ho
-  simp [World.getData, World.setData, World.getProp, World.setProp, World.getFlow, World.setFlow, World.getTotal,
-    World.setTotal, h1, h2]
-
-/-! ## write then read through a view -/
-
-/-- after `imass` / `ivol` handed out a view, the view is in the cache: the next access returns the same object -/
-theorem getView_lookup (w : World) (sid : Nat) (key : Key) :
-    ((w.getView sid key).1.s.caches ((w.getView sid key).1.stream sid).cache).lookup key
-      = some (w.getView sid key).2 := by
-  dsimp only [World.getView]
-  split
-  · rename_i v hv; exact hv
-  · simp only [World.stream, Struct.ixOf]
-    simp [List.lookup, upd]
-
-theorem getView_of_lookup {w1 : World} {sid : Nat} {key : Key} {v : View}
-    (h : (w1.s.caches (w1.stream sid).cache).lookup key = some v) : w1.getView sid key = (w1, v) := by
-  simp only [World.getView, h]
-
-theorem getView_again {w w1 : World} {sid : Nat} {key : Key} (hs : w1.s = (w.getView sid key).1.s) :
-    w1.getView sid key = (w1, (w.getView sid key).2) := by
-  apply getView_of_lookup
-  have : w1.stream sid = (w.getView sid key).1.stream sid := by simp [World.stream, hs]
-  rw [this, hs]
-  exact getView_lookup w sid key
-
-theorem pickV_stable (l : List VEntry) (th : Nat) (T P : Rat) (ph : Char) (k i : Nat) (vl vl' : Rat) :
-    pickV (pickNew l th T P ph k i vl ++ l) th T P ph k i vl' = pickV l th T P ph k i vl := by
-  have hfresh : ∀ old : List VEntry,
-      findEntry ([({ k := k, idx := i, th := th, T := T, P := P, ph := ph, V := vl } : VEntry)] ++ old) k i
-        = some { k := k, idx := i, th := th, T := T, P := P, ph := ph, V := vl } := by
-    intro old; simp [findEntry]
-  have hhit : ({ k := k, idx := i, th := th, T := T, P := P, ph := ph, V := vl } : VEntry).hit th T P ph = true := by
-    simp [VEntry.hit]
-  unfold pickV pickNew
-  cases hf : findEntry l k i with
-  | none => simp only [hfresh, hhit, if_true]
-  | some e =>
-    cases hh : e.hit th T P ph with
-    | true => simp [hf, hh]
-    | false => simp only [hh, Bool.false_eq_true, if_false, hfresh, hhit, if_true]
-
-theorem usedV_stable (w : World) (v : View) (k i : Nat) (vl vl' : Rat) (w1 : World)
-    (hvcs : w1.c.vcs = upd w.c.vcs v.vid (w.newEntry v k i vl ++ w.c.vcs v.vid))
-    (ht : w1.c.tcs = w.c.tcs) (hp : w1.c.phs = w.c.phs) :
-    w1.usedV v k i vl' = w.usedV v k i vl := by
-  have hph : w1.viewPhase v k = w.viewPhase v k := by simp [World.viewPhase, hp]
-  simp only [World.usedV, hvcs, upd_same, ht, hph, World.newEntry]
-  exact pickV_stable _ _ _ _ _ _ _ _ _
-
-theorem set_getD (l : List Rat) (i : Nat) (y : Rat) (h : i < l.length) : (l.set i y).getD i 0 = y := by
-  rw [List.getD_eq_getElem?_getD, List.getElem?_set_self h]; rfl
-
-/-- side conditions of a write through a view: the chemical index is inside the row, and the factor of the lens is
-non-zero -/
-structure PutOk (Vf : VFun) (w : World) (sid : Nat) (d : Dim) (ph : Option Char) (i : Nat) : Prop where
-  len : ∀ k r, w.rowPos sid ph = .ok k → (w.rowsOf sid)[k]? = some r → i < (w.c.rows r).length
-  mw : d = .mass → (w.MW (w.stream sid).th).getD i 0 ≠ 0
-  vol : d = .vol → ∀ k, w.rowPos sid ph = .ok k →
-    Vf (w.stream sid).th (streamPhase w sid k) (w.c.tcs (w.stream sid).tc).1 (w.c.tcs (w.stream sid).tc).2 i ≠ 0
+    w.getProp sid e.dim u V = w.getTotal sid u V ∧ w.setProp sid e.dim u x V = w.setTotal sid u x V :=
+  ThermoVerif.FlowViews.view_unit_agrees_with_flow_unit (w := w) (u := u) (e := e) (hf := hf) (ho := ho) (sid := sid) (ph := ph) (i := i) (x := x) (V := V)
 
 /-- `indexer[key] = y` followed by `indexer[key]` through the same view (molar, mass or volumetric) gives `y` back -/
 theorem put_get_elem {Vf : VFun} {w w1 : World} {sid : Nat} {d : Dim} {ph : Option Char} {i : Nat} {y : Rat}
     {V V' : Mat} {vid : Option Nat} (h : Inv w.s) (hs : sid < w.s.nstreams) (hv : VValid Vf w.c)
     (hl : d = .vol → VLine Vf w sid V) (hok : PutOk Vf w sid d ph i)
     (hput : w.putElem sid d ph i y V = .ok (w1, vid)) :
-    ∃ w2, w1.getElem sid d ph i V' = .ok (w2, vid, y) ∧ w2.units = w.units := by
-  simp only [World.putElem] at hput
-  split at hput
-  · cases hput
-  · rename_i k hk
-    split at hput
-    · cases hput
-    · rename_i hi
-      cases d with
-      | mol =>
-        simp only at hput
-        split at hput
-        · cases hput
-        · rename_i r hr
-          cases hput
-          have hlen := hok.len k r hk hr
-          refine ⟨w.setElem r i y, ?_, rfl⟩
-          have hk1 : (w.setElem r i y).rowPos sid ph = .ok k := hk
-          have hr1 : ((w.setElem r i y).rowsOf sid)[k]? = some r := hr
-          have hi1 : ¬ i ≥ ((w.setElem r i y).MW ((w.setElem r i y).stream sid).th).length := hi
-          simp only [World.getElem, hk1, hi1, if_false, hr1]
-          congr 3
-          simp only [World.setElem, upd_same]
-          exact set_getD _ _ _ hlen
-      | mass =>
-        simp only at hput
-        have hf := massView_facts h hs hv
-        split at hput
-        · cases hput
-        · rename_i r hr
-          cases hput
-          have hr' : (w.rowsOf sid)[k]? = some r := by rw [← hf.2.2.2.2.2]; exact hr
-          have hlen := hok.len k r hk hr'
-          have hmw := hok.mw rfl
-          generalize hw1 : (w.massView sid).1.setElem r i (y / ((w.massView sid).1.MW (w.massView sid).2.th).getD i 0) = w1
-          have hs1 : w1.s = (w.getView sid .mass).1.s := by rw [← hw1]; rfl
-          have hagain : w1.massView sid = (w1, (w.massView sid).2) := getView_again hs1
-          have hk1 : w1.rowPos sid ph = .ok k := by
-            have : w1.stream sid = w.stream sid := by
-              rw [← hw1]; exact hf.2.2.2.1
-            simpa [World.rowPos, this] using hk
-          have hth : (w.massView sid).2.th = (w.stream sid).th := hf.1.2.1.trans (by rw [hf.2.2.2.1])
-          have hMW : ∀ th, w1.MW th = w.MW th := by
-            intro th; rw [← hw1]; simp [World.MW, World.setElem, World.massView, (getView_cfg w sid .mass).1]
-          have hi1 : ¬ i ≥ (w1.MW (w1.stream sid).th).length := by
-            have : w1.stream sid = w.stream sid := by rw [← hw1]; exact hf.2.2.2.1
-            rw [hMW, this]; exact hi
-          refine ⟨w1, ?_, by rw [← hw1]; exact (getView_cfg w sid .mass).2⟩
-          simp only [World.getElem, hk1, hi1, if_false, hagain, hr]
-          congr 3
-          have hrow : (w1.c.rows r).getD i 0 = y / (w.MW (w.stream sid).th).getD i 0 := by
-            rw [← hw1]
-            have : ((w.massView sid).1.MW (w.massView sid).2.th) = w.MW (w.stream sid).th := by
-              rw [hth]; simp [World.MW, World.massView, (getView_cfg w sid .mass).1]
-            rw [this]
-            simp only [World.setElem, upd_same]
-            rw [hf.2.2.1]
-            exact set_getD _ _ _ hlen
-          rw [hrow, hMW, hth]
-          field_simp
-      | vol =>
-        simp only at hput
-        have hf := volView_facts h hs hv
-        split at hput
-        · cases hput
-        · rename_i r hr
-          cases hput
-          have hr' : (w.rowsOf sid)[k]? = some r := by rw [← hf.2.2.2.2.2.1]; exact hr
-          have hlen := hok.len k r hk hr'
-          have hl0 := hl rfl
-          have hl1 := vline_transfer hl0 hf.2.2.2.1 hf.2.2.2.2.1 (by rw [hf.2.2.1]) (by rw [hf.2.2.1])
-          have hr1 : ((w.volView sid).1.rowsOf sid)[k]? = some r := by rw [hf.2.2.2.2.1]; exact hr'
-          have hU := usedV_eq hf.2.1 hf.1 hf.2.2.2.2.2.2 k i (vAt V k i) (hl1 k r hr1 i)
-          have hUnz : (w.volView sid).1.usedV (w.volView sid).2 k i (vAt V k i) ≠ 0 := by
-            rw [hU, hf.2.2.2.1, hf.2.2.1]
-            have := hok.vol rfl k hk
-            simpa [streamPhase, hf.2.2.2.1, hf.2.2.1] using this
-          generalize hU0 : (w.volView sid).1.usedV (w.volView sid).2 k i (vAt V k i) = U at *
-          generalize hw1 : (((w.volView sid).1.addEntries (w.volView sid).2
-              (if y = 0 then [] else (w.volView sid).1.newEntry (w.volView sid).2 k i (vAt V k i))).setElem r i (y / U)) = w1
-          have hstream : w1.stream sid = w.stream sid := by rw [← hw1]; exact hf.2.2.2.1
-          have hs1 : w1.s = (w.getView sid (.vol (w.stream sid).tc)).1.s := by rw [← hw1]; rfl
-          have hagain : w1.volView sid = (w1, (w.volView sid).2) := by
-            have := getView_again (w := w) (w1 := w1) (sid := sid) (key := .vol (w.stream sid).tc) hs1
-            simpa [World.volView, hstream] using this
-          have hk1 : w1.rowPos sid ph = .ok k := by simpa [World.rowPos, hstream] using hk
-          have hi1 : ¬ i ≥ (w1.MW (w1.stream sid).th).length := by
-            have hMW : ∀ th, w1.MW th = w.MW th := by
-              intro th; rw [← hw1]
-              simp [World.MW, World.setElem, World.addEntries, World.volView, (getView_cfg w sid _).1]
-            rw [hMW, hstream]; exact hi
-          have hrow : (w1.c.rows r).getD i 0 = y / U := by
-            rw [← hw1]
-            simp only [World.setElem, World.addEntries, upd_same]
-            rw [hf.2.2.1]
-            exact set_getD _ _ _ hlen
-          refine ⟨w1.addEntries (w.volView sid).2 (if (w1.c.rows r).getD i 0 = 0 then []
-                    else w1.newEntry (w.volView sid).2 k i (vAt V' k i)), ?_, ?_⟩
-          · simp only [World.getElem, hk1, hi1, if_false, hagain, hr]
-            congr 3
-            rw [hrow]
-            by_cases hy : y = 0
-            · simp [hy]
-            · have hst := usedV_stable (w.volView sid).1 (w.volView sid).2 k i (vAt V k i) (vAt V' k i) w1
-                (by rw [← hw1]; simp [World.setElem, World.addEntries, hy])
-                (by rw [← hw1]; rfl) (by rw [← hw1]; rfl)
-              rw [hst, hU0]
-              field_simp
-          · rw [← hw1]; exact (getView_cfg w sid _).2
-      | other => simp at hput
-
-theorem putElem_units {w w1 : World} {sid : Nat} {d : Dim} {ph : Option Char} {i : Nat} {y : Rat} {V : Mat}
-    {vid : Option Nat} (hput : w.putElem sid d ph i y V = .ok (w1, vid)) : w1.units = w.units := by
-  simp only [World.putElem] at hput
-  split at hput
-  · cases hput
-  · split at hput
-    · cases hput
-    · split at hput
-      · split at hput
-        · cases hput
-        · cases hput; rfl
-      · split at hput
-        · cases hput
-        · cases hput; exact (getView_cfg w sid _).2
-      · split at hput
-        · cases hput
-        · cases hput; exact (getView_cfg w sid _).2
-      · cases hput
+    ∃ w2, w1.getElem sid d ph i V' = .ok (w2, vid, y) ∧ w2.units = w.units :=
+  ThermoVerif.FlowViews.put_get_elem (Vf := Vf) (w := w) (w1 := w1) (sid := sid) (d := d) (ph := ph) (i := i) (y := y) (V := V) (V' := V') (vid := vid) (h := h) (hs := hs) (hv := hv) (hl := hl) (hok := hok) (hput := hput)
 
 /-- **set_get_other_unit.**  `set_flow(x, u, key)` followed by `get_flow(u', key)` in a unit of the same dimension
 returns `x · f(u')/f(u)` — through the molar data, the mass view or the volumetric view alike, whatever state the
@@ -1253,15 +181,8 @@ theorem set_get_other_unit {Vf : VFun} {w w1 : World} {sid : Nat} {u u' : String
     (hao : a.dim ≠ .other) (hfa : a.factor ≠ 0)
     (hl : a.dim = .vol → VLine Vf w sid V) (hok : PutOk Vf w sid a.dim ph i)
     (hset : w.setFlow sid u ph i x V = .ok (w1, vid)) :
-    ∃ w2, w1.getFlow sid u' ph i V' = .ok (w2, vid, x * conv a b) := by
-  simp only [World.setFlow, flowUnit_ok ha hao] at hset
-  obtain ⟨w2, hget, -⟩ := put_get_elem (V' := V') h hs hv hl hok hset
-  have hb' : findUnit w1.units u' = some b := by rw [putElem_units hset]; exact hb
-  have hbo : b.dim ≠ .other := hdim ▸ hao
-  refine ⟨w2, ?_⟩
-  simp only [World.getFlow, flowUnit_ok hb' hbo, ← hdim, hget, conv]
-  congr 3
-  field_simp
+    ∃ w2, w1.getFlow sid u' ph i V' = .ok (w2, vid, x * conv a b) :=
+  ThermoVerif.FlowViews.set_get_other_unit (Vf := Vf) (w := w) (w1 := w1) (sid := sid) (u := u) (u' := u') (ph := ph) (i := i) (x := x) (V := V) (V' := V') (vid := vid) (a := a) (b := b) (h := h) (hs := hs) (hv := hv) (ha := ha) (hb := hb) (hdim := hdim) (hao := hao) (hfa := hfa) (hl := hl) (hok := hok) (hset := hset)
 
 /-- **set_get_same_unit.**  `set_flow(x, u, key)` followed by `get_flow(u, key)` returns `x`. -/
 theorem set_get_same_unit {Vf : VFun} {w w1 : World} {sid : Nat} {u : String} {ph : Option Char} {i : Nat}
@@ -1270,24 +191,8 @@ theorem set_get_same_unit {Vf : VFun} {w w1 : World} {sid : Nat} {u : String} {p
     (ha : findUnit w.units u = some a) (hao : a.dim ≠ .other) (hfa : a.factor ≠ 0)
     (hl : a.dim = .vol → VLine Vf w sid V) (hok : PutOk Vf w sid a.dim ph i)
     (hset : w.setFlow sid u ph i x V = .ok (w1, vid)) :
-    ∃ w2, w1.getFlow sid u ph i V' = .ok (w2, vid, x) := by
-  obtain ⟨w2, hget⟩ := set_get_other_unit (V' := V') h hs hv ha ha rfl hao hfa hl hok hset
-  rw [(factor_consistent a a a hfa hfa).1, mul_one] at hget
-  exact ⟨w2, hget⟩
-
-/-! ## whole-row assignment through a view -/
-
-theorem divVec_mulVec (xs mw : List Rat) (hl : xs.length = mw.length) (hz : ∀ m ∈ mw, m ≠ 0) :
-    mulVec (divVec xs mw) mw = xs := by
-  induction xs generalizing mw with
-  | nil => simp [mulVec, divVec]
-  | cons a t ih =>
-    cases mw with
-    | nil => simp at hl
-    | cons b u =>
-      simp only [mulVec, divVec, List.zipWith_cons_cons, List.cons.injEq] at ih ⊢
-      have hb : b ≠ 0 := hz b (by simp)
-      refine ⟨by field_simp, ih u (by simpa using hl) (fun m hm => hz m (by simp [hm]))⟩
+    ∃ w2, w1.getFlow sid u ph i V' = .ok (w2, vid, x) :=
+  ThermoVerif.FlowViews.set_get_same_unit (Vf := Vf) (w := w) (w1 := w1) (sid := sid) (u := u) (ph := ph) (i := i) (x := x) (V := V) (V' := V') (vid := vid) (a := a) (h := h) (hs := hs) (hv := hv) (ha := ha) (hao := hao) (hfa := hfa) (hl := hl) (hok := hok) (hset := hset)
 
 /-- **put_row_mass_spec.**  `s.mass = values` / `s.imass[phase] = values` (an ndarray or another stream's mass view):
 the addressed molar row becomes `values_i / MW_i` with the *receiver's* molecular weights; nothing else is rebound. -/
@@ -1296,33 +201,8 @@ theorem put_row_mass_spec {w w' : World} {sid : Nat} {ph : Option Char} {xs : Li
     (he : w.putRow sid .mass ph xs V = .ok (w', vid)) :
     ∃ k r, w.rowPos sid ph = .ok k ∧ (w.rowsOf sid)[k]? = some r ∧
       w'.c.rows r = divVec xs (w.MW (w.stream sid).th) ∧ xs.length = (w.MW (w.stream sid).th).length ∧
-      w'.rowsOf sid = w.rowsOf sid ∧ w'.stream sid = w.stream sid ∧ w'.thermos = w.thermos := by
-  have hg := (getView_good h hs (key := .mass) (Or.inl rfl)).1
-  have hcfg := (getView_cfg w sid .mass).1
-  have hst := getView_streams w sid .mass
-  have hstream : (w.massView sid).1.stream sid = w.stream sid := by
-    simp only [World.massView, World.stream, Struct.ixOf, hst.1, hst.2.2.2]
-  simp only [World.putRow] at he
-  split at he
-  · cases he
-  · rename_i k hk
-    split at he
-    · cases he
-    · rename_i hlen
-      split at he
-      · cases he
-      · rename_i r hr
-        cases he
-        refine ⟨k, r, hk, ?_, ?_, Decidable.of_not_not hlen, ?_, ?_, hcfg⟩
-        · have : (w.massView sid).2.rows = w.rowsOf sid := hg.1
-          rw [← this]; exact hr
-        · have hth : (w.massView sid).2.th = (w.stream sid).th := hg.2.1
-          simp only [World.setRow, upd_same, World.MW, hth]
-          rw [show (w.massView sid).1.thermos = w.thermos from hcfg]
-        · show ((w.massView sid).1.rowsOf sid) = w.rowsOf sid
-          simp only [World.rowsOf, hstream]
-          rw [show (w.massView sid).1.s.datas = w.s.datas from hst.2.2.1]
-        · exact hstream
+      w'.rowsOf sid = w.rowsOf sid ∧ w'.stream sid = w.stream sid ∧ w'.thermos = w.thermos :=
+  ThermoVerif.FlowViews.put_row_mass_spec (w := w) (w' := w') (sid := sid) (ph := ph) (xs := xs) (V := V) (vid := vid) (h := h) (hs := hs) (he := he)
 
 /-- **put_row_vol_spec.**  `s.vol = values`, `s.ivol.data.copy_like(other.vol)`, `s.ivol[phase] = values`: the addressed
 molar row becomes `values_i / (1000·V_i)` with the molar volumes at the **receiver's** chemicals, phase, T and P —
@@ -1332,29 +212,8 @@ theorem put_row_vol_spec {Vf : VFun} {w w' : World} {sid : Nat} {ph : Option Cha
     (he : w.putRow sid .vol ph xs V = .ok (w', vid)) :
     ∃ k r, w.rowPos sid ph = .ok k ∧ (w.rowsOf sid)[k]? = some r ∧
       w'.c.rows r = xs.zipIdx.map (fun (x, i) => x / Vf (w.stream sid).th (streamPhase w sid k)
-        (w.c.tcs (w.stream sid).tc).1 (w.c.tcs (w.stream sid).tc).2 i) := by
-  have hf := volView_facts h hs hv
-  simp only [World.putRow] at he
-  split at he
-  · cases he
-  · rename_i k hk
-    split at he
-    · cases he
-    · split at he
-      · cases he
-      · rename_i r hr
-        cases he
-        have hr' : (w.rowsOf sid)[k]? = some r := by rw [← hf.2.2.2.2.2.1]; exact hr
-        refine ⟨k, r, hk, hr', ?_⟩
-        simp only [World.setRow, upd_same]
-        apply List.map_congr_left
-        rintro ⟨x, i⟩ -
-        have hl1 := vline_transfer hl hf.2.2.2.1 hf.2.2.2.2.1 (by rw [hf.2.2.1]) (by rw [hf.2.2.1])
-        have hr1 : ((w.volView sid).1.rowsOf sid)[k]? = some r := by rw [hf.2.2.2.2.1]; exact hr'
-        have hU := usedV_eq hf.2.1 hf.1 hf.2.2.2.2.2.2 k i (vAt V k i) (hl1 k r hr1 i)
-        simp only
-        rw [hU, hf.2.2.2.1, hf.2.2.1]
-        simp [streamPhase, hf.2.2.2.1, hf.2.2.1]
+        (w.c.tcs (w.stream sid).tc).1 (w.c.tcs (w.stream sid).tc).2 i) :=
+  ThermoVerif.FlowViews.put_row_vol_spec (Vf := Vf) (w := w) (w' := w') (sid := sid) (ph := ph) (xs := xs) (V := V) (vid := vid) (h := h) (hs := hs) (hv := hv) (hl := hl) (he := he)
 
 /-- **put_row_mass_reads_back.**  After a whole-row assignment through the mass view, the mass view reads back exactly the
 assigned values (non-zero molecular weights). -/
@@ -1362,16 +221,26 @@ theorem put_row_mass_reads_back {w w' : World} {sid : Nat} {ph : Option Char} {x
     {vid : Option Nat} (h : Inv w.s) (hs : sid < w.s.nstreams)
     (hmw : ∀ m ∈ w.MW (w.stream sid).th, m ≠ 0)
     (he : w.putRow sid .mass ph xs V = .ok (w', vid)) :
-    ∃ k, w.rowPos sid ph = .ok k ∧ (w'.readMass sid).2.2[k]? = some xs := by
-  obtain ⟨k, r, hk, hr, hrow, hlen, hrows, hstream, hth⟩ := put_row_mass_spec h hs he
-  obtain ⟨hI, hn⟩ := inv_putRow h hs he
-  refine ⟨k, hk, ?_⟩
-  rw [mass_is_mol_MW hI (by rw [hn]; exact hs)]
-  simp only [World.readMol, hrows, hstream, List.getElem?_map, hr, Option.map_some]
-  have : w'.MW (w.stream sid).th = w.MW (w.stream sid).th := by simp [World.MW, hth]
-  rw [hrow, this, divVec_mulVec xs _ hlen hmw]
+    ∃ k, w.rowPos sid ph = .ok k ∧ (w'.readMass sid).2.2[k]? = some xs :=
+  ThermoVerif.FlowViews.put_row_mass_reads_back (w := w) (w' := w') (sid := sid) (ph := ph) (xs := xs) (V := V) (vid := vid) (h := h) (hs := hs) (hmw := hmw) (he := he)
 
-/-! ## proxies and phase views -/
+/-- **agg_mass_spec.**  `stream.mass` is, per chemical, the molar flow summed over the phases times the molecular weight
+(multi-phase: computed as `mol * MW`; single-phase: read through the cached mass view, which `mass_is_mol_MW` ties to the
+current rows). -/
+theorem agg_mass_spec {w w' : World} {sid : Nat} {V : Mat} {vid : Option Nat} {r : List Rat} (h : Inv w.s)
+    (hs : sid < w.s.nstreams) (he : w.readAgg sid .mass V = .ok (w', vid, r)) :
+    r = if (w.stream sid).multi then mulVec (colSum (w.readMol sid)) (w.MW (w.stream sid).th)
+        else colSum ((w.readMol sid).map (fun x => mulVec x (w.MW (w.stream sid).th))) :=
+  ThermoVerif.FlowViews.agg_mass_spec (w := w) (w' := w') (sid := sid) (V := V) (vid := vid) (r := r) (h := h) (hs := hs) (he := he)
+
+/-- **agg_vol_spec.**  `stream.vol` is, per chemical, the sum over the phases of molar flow × molar volume at that
+phase and the stream's current T and P. -/
+theorem agg_vol_spec {Vf : VFun} {w w' : World} {sid : Nat} {V : Mat} {vid : Option Nat} {r : List Rat} (h : Inv w.s)
+    (hs : sid < w.s.nstreams) (hv : VValid Vf w.c) (hl : VLine Vf w sid V)
+    (he : w.readAgg sid .vol V = .ok (w', vid, r)) :
+    r = colSum ((w.readMol sid).zipIdx.map (fun (x, k) => x.zipIdx.map (fun (y, i) =>
+      y * Vf (w.stream sid).th (streamPhase w sid k) (w.c.tcs (w.stream sid).tc).1 (w.c.tcs (w.stream sid).tc).2 i))) :=
+  ThermoVerif.FlowViews.agg_vol_spec (Vf := Vf) (w := w) (w' := w') (sid := sid) (V := V) (vid := vid) (r := r) (h := h) (hs := hs) (hv := hv) (hl := hl) (he := he)
 
 /-- **proxy_spec.**  `proxy()` creates a stream object that holds the very same indexer object (hence the same data,
 `_data_cache`, phase container) and the same thermal-condition object; `flow_proxy()` one that holds the same data object
@@ -1380,14 +249,14 @@ theorem proxy_spec (w : World) (sid : Nat) :
     ((w.proxy sid).1.s.streams (w.proxy sid).2).ix = (w.s.streams sid).ix ∧
     ((w.proxy sid).1.stream (w.proxy sid).2).tc = (w.stream sid).tc ∧
     (w.proxy sid).1.rowsOf (w.proxy sid).2 = w.rowsOf sid ∧
-    ((w.proxy sid).1.stream (w.proxy sid).2).cache = (w.stream sid).cache := by
-  simp [World.proxy, World.stream, World.rowsOf, Struct.ixOf, upd]
+    ((w.proxy sid).1.stream (w.proxy sid).2).cache = (w.stream sid).cache :=
+  ThermoVerif.FlowViews.proxy_spec (w := w) (sid := sid)
 
 theorem flowProxy_spec (w : World) (sid : Nat) :
     (w.flowProxy sid).1.rowsOf (w.flowProxy sid).2 = w.rowsOf sid ∧
     ((w.flowProxy sid).1.stream (w.flowProxy sid).2).cache = w.s.ncaches ∧
-    (w.flowProxy sid).1.s.caches w.s.ncaches = [] := by
-  simp [World.flowProxy, World.stream, World.rowsOf, Struct.ixOf, Struct.bindNew, upd]
+    (w.flowProxy sid).1.s.caches w.s.ncaches = [] :=
+  ThermoVerif.FlowViews.flowProxy_spec (w := w) (sid := sid)
 
 /-- **holders_of_one_indexer_agree.**  In every reachable state, two stream objects that hold the same indexer object (a
 stream and its `proxy()`, after any operations on either) read the same molar data, and their mass views read the same
@@ -1395,47 +264,13 @@ values: both are `mol × MW` of the one indexer. -/
 theorem holders_of_one_indexer_agree {w : World} {p q : Nat} (h : Inv w.s) (hp : p < w.s.nstreams)
     (hq : q < w.s.nstreams) (hix : (w.s.streams p).ix = (w.s.streams q).ix) :
     w.readMol p = w.readMol q ∧ (w.readMass p).2.2 = (w.readMass q).2.2 ∧
-    (w.stream p).cache = (w.stream q).cache := by
-  have hs : ∀ f : Stream → Nat, f (w.s.ixOf p) = f (w.s.ixOf q) := by
-    intro f; simp [Struct.ixOf, hix]
-  have hmol : w.readMol p = w.readMol q := by
-    simp only [World.readMol, World.rowsOf, World.stream]
-    rw [show (w.s.ixOf p).data = (w.s.ixOf q).data from hs (·.data)]
-  refine ⟨hmol, ?_, hs (·.cache)⟩
-  rw [mass_is_mol_MW h hp, mass_is_mol_MW h hq, hmol]
-  simp only [World.stream]
-  rw [show (w.s.ixOf p).th = (w.s.ixOf q).th from hs (·.th)]
-
-/-- a phase view `v` of `p` for phase label `c` is *attached*: it wraps the row object `p` files `c` under, and refers to
-`p`'s thermal-condition object and chemicals -/
-def Attached (w : World) (p : Nat) (c : Char) (v : Nat) : Prop :=
-  ∃ r, w.rowFor p c = some r ∧ w.rowsOf v = [r] ∧ (w.stream v).tc = (w.stream p).tc ∧
-    (w.stream v).th = (w.stream p).th ∧ (w.stream v).multi = false
+    (w.stream p).cache = (w.stream q).cache :=
+  ThermoVerif.FlowViews.holders_of_one_indexer_agree (w := w) (p := p) (q := q) (h := h) (hp := hp) (hq := hq) (hix := hix)
 
 /-- **phaseView_attached.**  The first `ms[c]` hands out an attached view. -/
 theorem phaseView_attached {w w' : World} {sid v : Nat} {c : Char} (h : Inv w.s) (hs : sid < w.s.nstreams)
-    (hnew : (w.views sid).lookup c = none) (he : w.phaseView sid c = .ok (w', v)) : Attached w' sid c v := by
-  simp only [World.phaseView, hnew] at he
-  split at he
-  · cases he
-  · split at he
-    · cases he
-    · rename_i r hr
-      cases he
-      have hne : ¬ w.s.nstreams = sid := fun e => Nat.lt_irrefl _ (e ▸ hs)
-      have hne' : ¬ sid = w.s.nstreams := fun e => hne e.symm
-      have hix : ¬ (w.s.streams sid).ix = w.s.nixs := Nat.ne_of_lt (h.bix sid hs)
-      have hd : ¬ (w.s.ixs (w.s.streams sid).ix).data = w.s.ndatas := Nat.ne_of_lt (h.bdata sid hs)
-      refine ⟨r, ?_, ?_, ?_, ?_, ?_⟩
-      · simp only [World.rowFor, World.rowsOf, World.stream, Struct.ixOf] at hr
-        simp [World.rowFor, World.rowsOf, World.stream, World.setViews, World.attach, Struct.ixOf,
-          Struct.bindNew, Struct.allocData, upd, hne, hne', hix, hd]
-        exact hr
-      · simp [World.rowsOf, World.stream, World.setViews, World.attach, Struct.ixOf, Struct.bindNew,
-          Struct.allocData, upd, hne, hne', hix, hd]
-      · simp [World.stream, World.setViews, World.attach, Struct.ixOf, Struct.bindNew, Struct.allocData, upd, hne, hne', hix, hd]
-      · simp [World.stream, World.setViews, World.attach, Struct.ixOf, Struct.bindNew, Struct.allocData, upd, hne, hne', hix, hd]
-      · simp [World.stream, World.setViews, World.attach, Struct.ixOf, Struct.bindNew, Struct.allocData, upd, hne, hne', hix, hd]
+    (hnew : (w.views sid).lookup c = none) (he : w.phaseView sid c = .ok (w', v)) : Attached w' sid c v :=
+  ThermoVerif.FlowViews.phaseView_attached (w := w) (w' := w') (sid := sid) (v := v) (c := c) (h := h) (hs := hs) (hnew := hnew) (he := he)
 
 /-- **write_through_view_reaches_parent.**  A whole-row assignment through the mass accessor of an attached phase view
 (`ms[c].mass = values`) sets the row of that phase *in the parent* to `values_i / MW_i`; conversely the view reads the
@@ -1444,122 +279,37 @@ theorem write_through_view_reaches_parent {w w' : World} {p v : Nat} {c : Char} 
     {vid : Option Nat} (h : Inv w.s) (hv : v < w.s.nstreams) (ha : Attached w p c v)
     (he : w.putRow v .mass none xs V = .ok (w', vid)) :
     ∃ r, w.rowFor p c = some r ∧ w'.c.rows r = divVec xs (w.MW (w.stream p).th) ∧
-      w.readMol v = [w.c.rows r] ∧ w'.readMol v = [w'.c.rows r] := by
-  obtain ⟨r, hr, hrows, -, hth, hm⟩ := ha
-  obtain ⟨k, r', hk, hr', hrow, -, hrows', -, -⟩ := put_row_mass_spec h hv he
-  have hk0 : k = 0 := by
-    simp only [World.rowPos, hm] at hk
-    cases hk; rfl
-  subst hk0
-  rw [hrows] at hr'
-  simp only [List.getElem?_cons_zero, Option.some.injEq] at hr'
-  subst hr'
-  refine ⟨r, hr, by rw [hrow, hth], ?_, ?_⟩
-  · simp [World.readMol, hrows]
-  · simp [World.readMol, hrows', hrows]
-
-/-! ## the code as found violates the property (reproduced in the model by the `…Old` variants) -/
-
-/-- two linked single-phase streams -/
-def twoStreams : World :=
-  let w := ({ thermos := [[18]] } : World)
-  let w := (w.newStream false [] 'l' 0 300 101325 [[1]]).1
-  (w.newStream false [] 'l' 0 300 101325 [[0]]).1
+      w.readMol v = [w.c.rows r] ∧ w'.readMol v = [w'.c.rows r] :=
+  ThermoVerif.FlowViews.write_through_view_reaches_parent (w := w) (w' := w') (p := p) (v := v) (c := c) (xs := xs) (V := V) (vid := vid) (h := h) (hv := hv) (ha := ha) (he := he)
 
 /-- **unlink_clear_in_place_counterexample** (fixes_proposed/C11-2).  With `unlink` as found (`_data_cache.clear()`),
 `s1.link_with(s0); s1.unlink(); s1.imass` leaves in `s0`'s `_data_cache` a mass view that wraps `s1`'s rows: the
 invariant of `view_tracks_rows` fails.  With the repaired `unlink` the same history leaves `s0`'s cache empty. -/
 theorem unlink_clear_in_place_counterexample :
     ¬ Inv (((twoStreams.linkShare 1 0 true).unlinkOld 1).massView 1).1.s ∧
-    Inv (((twoStreams.linkShare 1 0 true).unlink 1).massView 1).1.s := by
-  constructor
-  · intro h
-    have hbad : ∃ kv ∈ (((twoStreams.linkShare 1 0 true).unlinkOld 1).massView 1).1.s.caches
-          ((((twoStreams.linkShare 1 0 true).unlinkOld 1).massView 1).1.stream 0).cache,
-        kv.2.rows ≠ (((twoStreams.linkShare 1 0 true).unlinkOld 1).massView 1).1.s.datas
-          ((((twoStreams.linkShare 1 0 true).unlinkOld 1).massView 1).1.stream 0).data := by decide
-    obtain ⟨kv, hmem, hne⟩ := hbad
-    exact hne (h.tracks 0 (by decide) kv hmem).1
-  · have h2 : Inv twoStreams.s := inv_newStream (inv_newStream inv_init _ _ _ _ _ _ _) _ _ _ _ _ _ _
-    have h3 : Inv (twoStreams.linkShare 1 0 true).s :=
-      inv_linkShare h2 (by decide) (by decide) (by decide) (by decide) (Or.inl rfl)
-    exact inv_getView (inv_unlink h3) (by decide) (Or.inl rfl)
+    Inv (((twoStreams.linkShare 1 0 true).unlink 1).massView 1).1.s :=
+  ThermoVerif.FlowViews.unlink_clear_in_place_counterexample
 
 /-- the same for the non-sharing branch of `link_with` as found -/
 theorem relink_clear_in_place_counterexample :
     ¬ Inv (((twoStreams.linkShare 1 0 true).linkPlain false 1 1 false false false).massView 1).1.s
     ∨ ¬ Inv ((((twoStreams.newStream false [] 'l' 0 300 101325 [[4]]).1.linkShare 1 0 true).linkPlain false 1 2 true false
-          false).massView 1).1.s := by
-  right
-  intro h
-  have hbad : ∃ kv ∈ ((((twoStreams.newStream false [] 'l' 0 300 101325 [[4]]).1.linkShare 1 0 true).linkPlain false 1 2
-        true false false).massView 1).1.s.caches
-        (((((twoStreams.newStream false [] 'l' 0 300 101325 [[4]]).1.linkShare 1 0 true).linkPlain false 1 2 true false
-          false).massView 1).1.stream 0).cache,
-      kv.2.rows ≠ ((((twoStreams.newStream false [] 'l' 0 300 101325 [[4]]).1.linkShare 1 0 true).linkPlain false 1 2
-        true false false).massView 1).1.s.datas
-        (((((twoStreams.newStream false [] 'l' 0 300 101325 [[4]]).1.linkShare 1 0 true).linkPlain false 1 2 true false
-          false).massView 1).1.stream 0).data := by decide
-  obtain ⟨kv, hmem, hne⟩ := hbad
-  exact hne (h.tracks 0 (by decide) kv hmem).1
-
-/-- a two-phase stream with its views cached, and the world after `_expand_phases(['s'])` as found / repaired -/
-def twoPhase : World :=
-  (((({ thermos := [[18]] } : World).newStream true ['g', 'l'] 'l' 0 300 101325 [[1], [2]]).1.massView 0).1)
-
-def expanded (clear : Bool) : World :=
-  match World.expandPhases clear twoPhase 0 ['s'] with
-  | .ok w => w
-  | .error _ => twoPhase
+          false).massView 1).1.s :=
+  ThermoVerif.FlowViews.relink_clear_in_place_counterexample
 
 /-- **expand_keeps_cache_counterexample** (fixes_proposed/C11-3).  After `_expand_phases` as found, the cached mass
 view still wraps the two old rows while the stream holds three. -/
-theorem expand_keeps_cache_counterexample : ¬ Inv (expanded false).s ∧ Inv (expanded true).s := by
-  constructor
-  · intro h
-    have hbad : ∃ kv ∈ (expanded false).s.caches ((expanded false).stream 0).cache,
-        kv.2.rows ≠ (expanded false).s.datas ((expanded false).stream 0).data := by decide
-    obtain ⟨kv, hmem, hne⟩ := hbad
-    exact hne (h.tracks 0 (by decide) kv hmem).1
-  · have h1 : Inv twoPhase.s := inv_getView (inv_newStream inv_init _ _ _ _ _ _ _) (by decide) (Or.inl rfl)
-    have hok : (World.expandPhases true twoPhase 0 ['s']).toBool = true := by decide +kernel
-    cases hx : World.expandPhases true twoPhase 0 ['s'] with
-    | error e => rw [hx] at hok; cases hok
-    | ok w =>
-      have : expanded true = w := by simp [expanded, hx]
-      rw [this]
-      exact (inv_expandPhases h1 (by decide) hx).1
-
-/-- a liquid stream whose volumetric view was read (liquid molar volume 2 cached), then switched to gas -/
-def nowGas : World :=
-  let w := (({ thermos := [[18]] } : World).newStream false [] 'l' 0 300 101325 [[1]]).1
-  match (w.readVol 0 [[2]]).1.setPhase 0 'g' [] with
-  | .ok w => w
-  | .error _ => w
+theorem expand_keeps_cache_counterexample : ¬ Inv (expanded false).s ∧ Inv (expanded true).s :=
+  ThermoVerif.FlowViews.expand_keeps_cache_counterexample
 
 /-- **vol_cache_keyed_on_TP_only_counterexample** (fixes_proposed/C11-1).  With the cache test as found (T and P only)
 the view keeps using the liquid volume 2 after the phase changed to gas, where the fresh gas volume is 50; keyed on the
 phase too it uses 50. -/
 theorem vol_cache_keyed_on_TP_only_counterexample :
     nowGas.usedVOld (nowGas.volView 0).2 0 0 50 = 2 ∧ nowGas.usedV (nowGas.volView 0).2 0 0 50 = 50 ∧
-    (nowGas.readVol 0 [[50]]).2.2 = [[50]] ∧ nowGas.Fvol 0 [[50]] = 50 := by
-  decide +kernel
-
+    (nowGas.readVol 0 [[50]]).2.2 = [[50]] ∧ nowGas.Fvol 0 [[50]] = 50 :=
+  ThermoVerif.FlowViews.vol_cache_keyed_on_TP_only_counterexample
 /-! ## non-vacuity: the hypotheses are met by concrete, non-trivial states -/
-
-/-- a table with two mass units, one molar, one volumetric and a non-flow unit -/
-def demoUnits : List UnitDef :=
-  [⟨"kmol/hr", .mol, 1⟩, ⟨"kg/hr", .mass, 1⟩, ⟨"lb/hr", .mass, 11/5⟩, ⟨"m3/hr", .vol, 1⟩, ⟨"K", .other, 0⟩]
-
-def demoStart : World := { thermos := [[18, 46]], units := demoUnits }
-
-/-- molar volumes: 2, 3 in the liquid, 50, 60 otherwise (independent of T, P and the package) -/
-def demoVf : VFun := fun _ ph _ _ i => if ph = 'l' then ([2, 3] : List Rat).getD i 0 else ([50, 60] : List Rat).getD i 0
-
-/-- a history that links, reads, unlinks and reads again -/
-def demoLinkOps : List Op :=
-  [.new1 0 'l' 300 101325 [1, 2], .new1 0 'l' 320 101325 [0, 0], .readMass 0, .link 1 0 true true true,
-   .readMass 1, .unlink 1, .put 1 .mol none 0 7 [], .readMass 1, .readMass 0]
 
 /-- `view_tracks_rows` is not vacuous: at the end of `demoLinkOps` both streams hold a cached mass view, and (by the
 theorem) each wraps its own stream's rows — the situation in which the code as found mixes them up. -/
@@ -1575,22 +325,6 @@ example : ∀ key v, (key, v) ∈ (demoStart.run demoLinkOps).s.caches ((demoSta
     v.rows = (demoStart.run demoLinkOps).rowsOf 0 :=
   fun key v hv => (view_tracks_rows demoStart demoLinkOps (inv_start _ _) 0 (by decide +kernel) key v hv).1
 
-/-- a liquid stream whose volumetric view is cached, then switched to the gas phase -/
-def demoVolOps : List Op :=
-  [.new1 0 'l' 300 101325 [1, 2], .readVol 0 [[2, 3]], .setPhase 0 'g' [], .setT 0 350]
-
-theorem demoVLine {w : World} {V : Mat} {ph : Char} (hr : w.rowsOf 0 = [0]) (hp : streamPhase w 0 0 = ph)
-    (hV : ∀ i, vAt V 0 i = demoVf 0 ph 0 0 i) : VLine demoVf w 0 V := by
-  intro k r hk i
-  rw [hr] at hk
-  cases k with
-  | zero => rw [hp]; exact hV i
-  | succ n => simp at hk
-
-theorem demoVol_ok : RunOk demoVf demoStart demoVolOps := by
-  refine ⟨trivial, ?_, trivial, trivial, trivial⟩
-  exact demoVLine (ph := 'l') (by decide +kernel) (by decide +kernel) (fun i => by simp [vAt, demoVf])
-
 /-- `vol_is_mol_V`, `Fvol_is_sum_of_vol_view` and `vcache_valid_along_histories` are not vacuous: after `demoVolOps` (a
 cached liquid volume, then a phase and a temperature change) all hypotheses hold and the view reads gas volumes. -/
 example :
@@ -1601,12 +335,6 @@ example :
     demoVLine (ph := 'g') (by decide +kernel) (by decide +kernel) (fun i => by simp [vAt, demoVf])
   rw [vol_is_mol_V hI.2 (by decide +kernel) hI.1 hl]
   decide +kernel
-
-/-- `set_get_other_unit` / `set_get_same_unit` are not vacuous: 20 lb/hr of chemical 1 set through the mass view of a
-two-stream world reads back as 20 lb/hr and as 20·(1/(11/5)) kg/hr. -/
-theorem demoLink_ok : RunOk demoVf demoStart demoLinkOps := by
-  refine ⟨trivial, trivial, trivial, trivial, trivial, trivial, ?_, trivial, trivial, trivial⟩
-  intro h; cases h
 
 example : ∃ w1 vid w2, (demoStart.run demoLinkOps).setFlow 0 "lb/hr" none 1 20 [] = Except.ok (w1, vid) ∧
     World.getFlow w1 0 "kg/hr" none 1 [] = Except.ok (w2, vid, 20 * (1 / (11 / 5))) := by
@@ -1631,7 +359,7 @@ example : ∃ w1 vid w2, (demoStart.run demoLinkOps).setFlow 0 "lb/hr" none 1 20
       cases hr
       decide +kernel
     obtain ⟨w2, hget⟩ := set_get_other_unit (Vf := demoVf) (V' := []) (u := "lb/hr") (u' := "kg/hr")
-      (a := ⟨"lb/hr", .mass, 11/5⟩) (b := ⟨"kg/hr", .mass, 1⟩) hI.2 (by decide +kernel) hI.1
+      (a := ⟨"lb/hr", massDim, 11/5⟩) (b := ⟨"kg/hr", massDim, 1⟩) hI.2 (by decide +kernel) hI.1
       (by rw [hu]; decide +kernel) (by rw [hu]; decide +kernel) rfl (by decide) (by decide +kernel)
       (fun h => by cases h) hok hset
     exact ⟨w1, vid, w2, rfl, hget⟩
@@ -1643,7 +371,7 @@ example : (demoStart.run demoLinkOps).F 0 .mass [] = 110 ∧
 
 /-- `dimension_guard` is not vacuous: `"K"` is in the table with dimension `other`. -/
 example : (demoStart.run demoLinkOps).getTotal 0 "K" [] = .error .dimension :=
-  (dimension_guard (w := demoStart.run demoLinkOps) (u := "K") (d := ⟨"K", .other, 0⟩)
+  (dimension_guard (w := demoStart.run demoLinkOps) (u := "K") (d := ⟨"K", [0, 0, 0, 0, 1, 0, 0, 0], 0⟩)
     (by decide +kernel) rfl 0 none 0 0 []).2.2.1
 
 end ThermoVerif.Props.C11
